@@ -1,8 +1,2092 @@
-//! C14 — not built yet.
+//! C14 — serialization round-trips every object exactly, sizes exact, across contexts.
+//!
+//! E1 sections:
+//!  * `scalars`  scalar / vector / Modulus / SchemeType / ParmsID writers on boundary alphabets
+//!  * `objects`  (parameter set x object kind): every variant of the kind is written back to back into ONE
+//!               stream (+ sentinel byte), read back in the same context and in a context rebuilt from the
+//!               serialized EncryptionParameters; announced size = returned count = bytes written = bytes
+//!               consumed; restored object field-wise equal to the (seed-expanded) original
+//!  * `terms`    `serialize_terms` over ALL 2^N term subsets (ascending + one shuffled order) for N <= 8
+//!  * `rnsp`     the Rnsp* wrappers (component-wise serialization over several plain moduli)
+//!
+//! The deciding step is exhaustive enumeration; nothing is sampled. `cfg.seed` only selects the
+//! generic fill constants of crafted residues.
+
 use crate::engine::*;
+use crate::he::{self, Kit, ParamSpec, Scheme};
+use crate::refmodel::poly::naive_ntt;
+use crate::refmodel::ser::{fill, naive_intt};
+use heathcliff::app::matmul::cipher3d::{Cipher3d, Plain3d};
+use heathcliff::app::matmul::{Cipher1d, Cipher2d, Plain1d, Plain2d};
+use heathcliff::app::rns_plain::{
+    RnspCiphertext, RnspEncryptionParameters, RnspEncryptor, RnspExpandSeed, RnspGaloisKeys, RnspHeContext, RnspKeyGenerator,
+    RnspPlaintext, RnspPublicKey, RnspRelinKeys, RnspSerializableWithHeContext,
+};
+use heathcliff::*;
+use serde::{Deserialize, Serialize};
+use std::collections::BTreeSet;
+use std::io;
+use std::sync::Arc;
 
-pub fn describe(_rep: &Report) {}
+pub fn describe(rep: &Report) {
+    rep.set_rule(
+        "case = (parameter set with explicit primes, object kind); the check builds every variant of that kind (levels, sizes, \
+         representations, seeded/expanded, metadata, missing entries, empty/ragged containers), writes them back to back into one \
+         stream followed by a sentinel byte and reads them back twice (same context; context rebuilt from the serialized \
+         parameters). traces_validated_against_impl counts single serialize / deserialize calls compared with the oracle. \
+         non-trivial = at least one variant was written and restored. terms: every subset of {0..N-1} in ascending and one \
+         shuffled order.",
+    );
+    rep.assume("streams are complete in-memory buffers (I/O faults are C15)");
+    rep.assume("the reference for seeded objects is ExpandSeed::expand_seed of the library applied element-wise (that IS the property's definition of the expanded form); the reference NTT/INTT of the selected-terms oracle is the naive O(N^2) evaluation map with the root of the context's table");
+    rep.assume("crafted ciphertexts/plaintexts (public constructors, residues below the moduli incl. q-1 and 0) stand for evaluator results of sizes 3..16 and of both representations that tiny parameter sets cannot produce by real evaluation");
+    rep.assume("ExpandSeed of the Cipher1d/2d/3d containers is judged on homogeneous containers only (mixed seeded/unseeded rows are reported in REPORT.md as an observation)");
+}
 
-pub fn sections(_cfg: &RunCfg) -> Vec<Box<dyn AnySection>> {
-    vec![]
+// ---------------------------------------------------------------------------------------------
+// failure plumbing
+// ---------------------------------------------------------------------------------------------
+
+#[derive(Debug, Clone)]
+struct Bad {
+    key: String,
+    expected: String,
+    observed: String,
+}
+type R<T> = Result<T, Bad>;
+
+fn bad(key: impl Into<String>, e: impl Into<String>, o: impl Into<String>) -> Bad {
+    Bad { key: key.into(), expected: e.into(), observed: o.into() }
+}
+
+/// subject call returning io::Result on a VALID operand: panic or Err are violations
+fn io_call<T>(key: &str, what: &str, detail: &str, f: impl FnOnce() -> io::Result<T>) -> R<T> {
+    match guard(f) {
+        Ok(Ok(v)) => Ok(v),
+        Ok(Err(e)) => Err(bad(format!("{key}:{what}:err"), format!("Ok for {detail}"), format!("Err({e})"))),
+        Err(p) => Err(bad(format!("{key}:{what}:panic:{}", panic_class(&p)), format!("no panic for {detail}"), p)),
+    }
+}
+fn call<T>(key: &str, what: &str, detail: &str, f: impl FnOnce() -> T) -> R<T> {
+    match guard(f) {
+        Ok(v) => Ok(v),
+        Err(p) => Err(bad(format!("{key}:{what}:panic:{}", panic_class(&p)), format!("no panic for {detail}"), p)),
+    }
+}
+
+#[derive(Default)]
+struct Stats {
+    steps: u64,
+    classes: BTreeSet<String>,
+    skipped: BTreeSet<String>,
+    bytes: u64,
+}
+
+// ---------------------------------------------------------------------------------------------
+// the generic round-trip oracle
+// ---------------------------------------------------------------------------------------------
+
+trait Obj: Sized {
+    /// context type the object is serialized relative to (HeContext or RnspHeContext)
+    type Cx;
+    fn kind() -> &'static str;
+    fn ser(&self, cx: &Self::Cx, w: &mut Vec<u8>) -> io::Result<usize>;
+    /// `like` carries out-of-band information only (the term list)
+    fn de(cx: &Self::Cx, r: &mut &[u8], like: &Self) -> io::Result<Self>;
+    fn size(&self, cx: &Self::Cx) -> usize;
+    /// what deserialization must return
+    fn expected(&self, cx: &Self::Cx) -> Self;
+    /// (field, detail) of the first difference
+    fn diff(&self, got: &Self) -> Option<(String, String)>;
+}
+
+struct Item<T> {
+    class: String,
+    label: String,
+    obj: T,
+}
+fn item<T>(class: &str, label: impl Into<String>, obj: T) -> Item<T> {
+    Item { class: class.to_string(), label: label.into(), obj }
+}
+
+type Ctxs = Vec<(&'static str, Arc<HeContext>)>;
+
+/// All items back to back in one stream + sentinel; read back in every context.
+fn stream_check<T: Obj>(sec: &str, items: &[Item<T>], ctxs: &[(&'static str, Arc<T::Cx>)], st: &mut Stats) -> R<()> {
+    if items.is_empty() {
+        return Ok(());
+    }
+    let a = &ctxs[0].1;
+    let mut buf: Vec<u8> = Vec::new();
+    let mut ends: Vec<usize> = Vec::with_capacity(items.len());
+    for it in items {
+        let key = format!("{sec}:{}:{}", T::kind(), it.class);
+        let announced = call(&key, "serialized_size", &it.label, || it.obj.size(a))?;
+        let before = buf.len();
+        let ret = io_call(&key, "serialize", &it.label, || it.obj.ser(a, &mut buf))?;
+        let written = buf.len() - before;
+        if ret != announced || written != announced {
+            return Err(bad(
+                format!("{key}:size-mismatch"),
+                format!("{}: announced = returned = written", it.label),
+                format!("announced={announced} returned={ret} written={written}"),
+            ));
+        }
+        ends.push(buf.len());
+        st.steps += 1;
+        st.bytes += written as u64;
+        st.classes.insert(format!("{}:{}", T::kind(), it.class));
+    }
+    const SENTINEL: u8 = 0xA5;
+    buf.push(SENTINEL);
+    // one reader per context, advanced in lock-step (the expected object is computed once per item)
+    let mut rds: Vec<&[u8]> = ctxs.iter().map(|_| &buf[..]).collect();
+    for (i, it) in items.iter().enumerate() {
+        let key = format!("{sec}:{}:{}", T::kind(), it.class);
+        let exp = call(&key, "expand_seed", &it.label, || it.obj.expected(a))?;
+        for (ci, (cname, cx)) in ctxs.iter().enumerate() {
+            let detail = format!("{} (item {i} of the stream, context '{cname}')", it.label);
+            let rd = &mut rds[ci];
+            let got = io_call(&key, "deserialize", &detail, || T::de(cx, rd, &it.obj))?;
+            let consumed = buf.len() - rd.len();
+            if consumed != ends[i] {
+                return Err(bad(
+                    format!("{key}:consumed-mismatch"),
+                    format!("{detail}: stream position {} after reading", ends[i]),
+                    format!("position {consumed}"),
+                ));
+            }
+            if let Some((field, d)) = exp.diff(&got) {
+                return Err(bad(format!("{key}:restored-differs:{field}"), format!("{detail}: restored object equals the original"), d));
+            }
+            st.steps += 1;
+        }
+    }
+    for (ci, (cname, _)) in ctxs.iter().enumerate() {
+        if rds[ci] != [SENTINEL] {
+            return Err(bad(
+                format!("{sec}:{}:sentinel", T::kind()),
+                format!("exactly the sentinel byte left after {} objects (context '{cname}')", items.len()),
+                format!("{} bytes left", rds[ci].len()),
+            ));
+        }
+    }
+    Ok(())
+}
+
+// ---------------------------------------------------------------------------------------------
+// field-wise comparisons
+// ---------------------------------------------------------------------------------------------
+
+type D = Option<(String, String)>;
+fn d(field: &str, e: impl std::fmt::Debug, o: impl std::fmt::Debug) -> D {
+    Some((field.to_string(), format!("{field}: expected {e:?}, restored {o:?}")))
+}
+fn first_diff(a: &[u64], b: &[u64]) -> Option<usize> {
+    a.iter().zip(b).position(|(x, y)| x != y)
+}
+
+fn ct_diff(a: &Ciphertext, b: &Ciphertext) -> D {
+    if a.size() != b.size() {
+        return d("size", a.size(), b.size());
+    }
+    if a.coeff_modulus_size() != b.coeff_modulus_size() {
+        return d("coeff_modulus_size", a.coeff_modulus_size(), b.coeff_modulus_size());
+    }
+    if a.poly_modulus_degree() != b.poly_modulus_degree() {
+        return d("poly_modulus_degree", a.poly_modulus_degree(), b.poly_modulus_degree());
+    }
+    if a.parms_id() != b.parms_id() {
+        return d("parms_id", a.parms_id(), b.parms_id());
+    }
+    if a.is_ntt_form() != b.is_ntt_form() {
+        return d("is_ntt_form", a.is_ntt_form(), b.is_ntt_form());
+    }
+    if a.scale().to_bits() != b.scale().to_bits() {
+        return d("scale", a.scale(), b.scale());
+    }
+    if a.correction_factor() != b.correction_factor() {
+        return d("correction_factor", a.correction_factor(), b.correction_factor());
+    }
+    if a.data().len() != b.data().len() {
+        return d("data_len", a.data().len(), b.data().len());
+    }
+    if let Some(i) = first_diff(a.data(), b.data()) {
+        let per = (a.poly_modulus_degree() * a.coeff_modulus_size()).max(1);
+        let n = a.poly_modulus_degree().max(1);
+        return Some((
+            "data".into(),
+            format!("data[{i}] (poly {}, component {}, coefficient {}): expected {:#x}, restored {:#x}", i / per, (i % per) / n, i % n, a.data()[i], b.data()[i]),
+        ));
+    }
+    None
+}
+
+fn pt_diff(a: &Plaintext, b: &Plaintext) -> D {
+    if a.coeff_count() != b.coeff_count() {
+        return d("coeff_count", a.coeff_count(), b.coeff_count());
+    }
+    if a.parms_id() != b.parms_id() {
+        return d("parms_id", a.parms_id(), b.parms_id());
+    }
+    if a.scale().to_bits() != b.scale().to_bits() {
+        return d("scale", a.scale(), b.scale());
+    }
+    if a.data().len() != b.data().len() {
+        return d("data_len", a.data().len(), b.data().len());
+    }
+    if let Some(i) = first_diff(a.data(), b.data()) {
+        return Some(("data".into(), format!("data[{i}]: expected {:#x}, restored {:#x}", a.data()[i], b.data()[i])));
+    }
+    None
+}
+
+fn modulus_diff(a: &Modulus, b: &Modulus) -> D {
+    if a.value() != b.value() || a.bit_count() != b.bit_count() || a.const_ratio() != b.const_ratio() || a.is_prime() != b.is_prime() {
+        return d(
+            "modulus",
+            (a.value(), a.bit_count(), a.const_ratio(), a.is_prime()),
+            (b.value(), b.bit_count(), b.const_ratio(), b.is_prime()),
+        );
+    }
+    None
+}
+
+fn parms_diff(a: &EncryptionParameters, b: &EncryptionParameters) -> D {
+    if a.scheme() != b.scheme() {
+        return d("scheme", a.scheme(), b.scheme());
+    }
+    if a.poly_modulus_degree() != b.poly_modulus_degree() {
+        return d("poly_modulus_degree", a.poly_modulus_degree(), b.poly_modulus_degree());
+    }
+    if a.coeff_modulus().len() != b.coeff_modulus().len() {
+        return d("coeff_modulus_len", a.coeff_modulus().len(), b.coeff_modulus().len());
+    }
+    for (x, y) in a.coeff_modulus().iter().zip(b.coeff_modulus()) {
+        if let Some(x) = modulus_diff(x, y) {
+            return Some(x);
+        }
+    }
+    if let Some(x) = modulus_diff(a.plain_modulus(), b.plain_modulus()) {
+        return Some(("plain_modulus".into(), x.1));
+    }
+    if a.use_special_prime_for_encryption() != b.use_special_prime_for_encryption() {
+        return d("use_special_prime_for_encryption", a.use_special_prime_for_encryption(), b.use_special_prime_for_encryption());
+    }
+    if a.parms_id() != b.parms_id() {
+        return d("parms_id", a.parms_id(), b.parms_id());
+    }
+    None
+}
+
+fn ksk_diff(a: &KSwitchKeys, b: &KSwitchKeys) -> D {
+    if a.parms_id() != b.parms_id() {
+        return d("parms_id", a.parms_id(), b.parms_id());
+    }
+    if a.keys().len() != b.keys().len() {
+        return d("keys_len", a.keys().len(), b.keys().len());
+    }
+    for (i, (x, y)) in a.keys().iter().zip(b.keys()).enumerate() {
+        if x.len() != y.len() {
+            return Some(("entry_len".into(), format!("entry {i}: expected {} keys, restored {}", x.len(), y.len())));
+        }
+        for (j, (p, q)) in x.iter().zip(y).enumerate() {
+            if let Some((f, m)) = ct_diff(p.as_ciphertext(), q.as_ciphertext()) {
+                return Some((f, format!("entry {i} key {j}: {m}")));
+            }
+        }
+    }
+    None
+}
+
+fn expand_ct(c: &Ciphertext, cx: &HeContext) -> Ciphertext {
+    if c.contains_seed() {
+        c.clone().expand_seed(cx)
+    } else {
+        c.clone()
+    }
+}
+fn expand_ksk(k: &KSwitchKeys, cx: &HeContext) -> KSwitchKeys {
+    let keys = k.keys().iter().map(|v| v.iter().map(|p| PublicKey::new(expand_ct(p.as_ciphertext(), cx))).collect()).collect();
+    KSwitchKeys::from_members(*k.parms_id(), keys)
+}
+
+// ---------------------------------------------------------------------------------------------
+// Obj implementations
+// ---------------------------------------------------------------------------------------------
+
+/// context-free objects (trait Serializable)
+trait Eqv: Clone {
+    const NAME: &'static str;
+    fn diffv(&self, o: &Self) -> D;
+}
+#[derive(Clone)]
+struct NoCtx<T>(T);
+impl<T: Serializable + Eqv> Obj for NoCtx<T> {
+    type Cx = HeContext;
+    fn kind() -> &'static str {
+        T::NAME
+    }
+    fn ser(&self, _cx: &HeContext, w: &mut Vec<u8>) -> io::Result<usize> {
+        Serializable::serialize(&self.0, w)
+    }
+    fn de(_cx: &HeContext, r: &mut &[u8], _like: &Self) -> io::Result<Self> {
+        Ok(NoCtx(<T as Serializable>::deserialize(r)?))
+    }
+    fn size(&self, _cx: &HeContext) -> usize {
+        Serializable::serialized_size(&self.0)
+    }
+    fn expected(&self, _cx: &HeContext) -> Self {
+        self.clone()
+    }
+    fn diff(&self, got: &Self) -> D {
+        self.0.diffv(&got.0)
+    }
+}
+macro_rules! eqv_plain {
+    ($t:ty, $n:expr) => {
+        impl Eqv for $t {
+            const NAME: &'static str = $n;
+            fn diffv(&self, o: &Self) -> D {
+                if self != o {
+                    d("value", self, o)
+                } else {
+                    None
+                }
+            }
+        }
+    };
+}
+eqv_plain!(u64, "u64");
+eqv_plain!(usize, "usize");
+eqv_plain!(u8, "u8");
+eqv_plain!(bool, "bool");
+eqv_plain!(SchemeType, "SchemeType");
+eqv_plain!(ParmsID, "ParmsID");
+eqv_plain!(Vec<u64>, "Vec<u64>");
+eqv_plain!(Vec<u8>, "Vec<u8>");
+impl Eqv for f64 {
+    const NAME: &'static str = "f64";
+    fn diffv(&self, o: &Self) -> D {
+        if self.to_bits() != o.to_bits() {
+            d("bits", self.to_bits(), o.to_bits())
+        } else {
+            None
+        }
+    }
+}
+impl Eqv for Modulus {
+    const NAME: &'static str = "Modulus";
+    fn diffv(&self, o: &Self) -> D {
+        modulus_diff(self, o)
+    }
+}
+impl Eqv for Vec<Modulus> {
+    const NAME: &'static str = "Vec<Modulus>";
+    fn diffv(&self, o: &Self) -> D {
+        if self.len() != o.len() {
+            return d("len", self.len(), o.len());
+        }
+        self.iter().zip(o).find_map(|(x, y)| modulus_diff(x, y))
+    }
+}
+impl Eqv for EncryptionParameters {
+    const NAME: &'static str = "EncryptionParameters";
+    fn diffv(&self, o: &Self) -> D {
+        parms_diff(self, o)
+    }
+}
+impl Eqv for Plaintext {
+    const NAME: &'static str = "Plaintext";
+    fn diffv(&self, o: &Self) -> D {
+        pt_diff(self, o)
+    }
+}
+impl Eqv for SecretKey {
+    const NAME: &'static str = "SecretKey";
+    fn diffv(&self, o: &Self) -> D {
+        pt_diff(self.as_plaintext(), o.as_plaintext())
+    }
+}
+fn p1_diff(a: &Plain1d, b: &Plain1d) -> D {
+    if a.data.len() != b.data.len() {
+        return d("len", a.data.len(), b.data.len());
+    }
+    a.data.iter().zip(&b.data).enumerate().find_map(|(i, (x, y))| pt_diff(x, y).map(|(f, m)| (f, format!("[{i}] {m}"))))
+}
+fn p2_diff(a: &Plain2d, b: &Plain2d) -> D {
+    if a.data.len() != b.data.len() {
+        return d("len", a.data.len(), b.data.len());
+    }
+    a.data.iter().zip(&b.data).enumerate().find_map(|(i, (x, y))| p1_diff(x, y).map(|(f, m)| (f, format!("[{i}] {m}"))))
+}
+impl Eqv for Plain1d {
+    const NAME: &'static str = "Plain1d";
+    fn diffv(&self, o: &Self) -> D {
+        p1_diff(self, o)
+    }
+}
+impl Eqv for Plain2d {
+    const NAME: &'static str = "Plain2d";
+    fn diffv(&self, o: &Self) -> D {
+        p2_diff(self, o)
+    }
+}
+impl Eqv for Plain3d {
+    const NAME: &'static str = "Plain3d";
+    fn diffv(&self, o: &Self) -> D {
+        if self.data.len() != o.data.len() {
+            return d("len", self.data.len(), o.data.len());
+        }
+        self.data.iter().zip(&o.data).enumerate().find_map(|(i, (x, y))| p2_diff(x, y).map(|(f, m)| (f, format!("[{i}] {m}"))))
+    }
+}
+
+/// objects serialized relative to a context (trait SerializableWithHeContext)
+trait EqvX: Clone {
+    const NAME: &'static str;
+    fn diffv(&self, o: &Self) -> D;
+    /// element-wise seed expansion (the harness's own traversal; only Ciphertext::expand_seed is the library's)
+    fn expandv(&self, cx: &HeContext) -> Self;
+}
+#[derive(Clone)]
+struct WithCtx<T>(T);
+impl<T: SerializableWithHeContext + EqvX> Obj for WithCtx<T> {
+    type Cx = HeContext;
+    fn kind() -> &'static str {
+        T::NAME
+    }
+    fn ser(&self, cx: &HeContext, w: &mut Vec<u8>) -> io::Result<usize> {
+        SerializableWithHeContext::serialize(&self.0, cx, w)
+    }
+    fn de(cx: &HeContext, r: &mut &[u8], _like: &Self) -> io::Result<Self> {
+        Ok(WithCtx(<T as SerializableWithHeContext>::deserialize(cx, r)?))
+    }
+    fn size(&self, cx: &HeContext) -> usize {
+        SerializableWithHeContext::serialized_size(&self.0, cx)
+    }
+    fn expected(&self, cx: &HeContext) -> Self {
+        WithCtx(self.0.expandv(cx))
+    }
+    fn diff(&self, got: &Self) -> D {
+        self.0.diffv(&got.0)
+    }
+}
+impl EqvX for Ciphertext {
+    const NAME: &'static str = "Ciphertext";
+    fn diffv(&self, o: &Self) -> D {
+        ct_diff(self, o)
+    }
+    fn expandv(&self, cx: &HeContext) -> Self {
+        expand_ct(self, cx)
+    }
+}
+impl EqvX for PublicKey {
+    const NAME: &'static str = "PublicKey";
+    fn diffv(&self, o: &Self) -> D {
+        ct_diff(self.as_ciphertext(), o.as_ciphertext())
+    }
+    fn expandv(&self, cx: &HeContext) -> Self {
+        PublicKey::new(expand_ct(self.as_ciphertext(), cx))
+    }
+}
+impl EqvX for KSwitchKeys {
+    const NAME: &'static str = "KSwitchKeys";
+    fn diffv(&self, o: &Self) -> D {
+        ksk_diff(self, o)
+    }
+    fn expandv(&self, cx: &HeContext) -> Self {
+        expand_ksk(self, cx)
+    }
+}
+impl EqvX for RelinKeys {
+    const NAME: &'static str = "RelinKeys";
+    fn diffv(&self, o: &Self) -> D {
+        ksk_diff(self.as_kswitch_keys(), o.as_kswitch_keys())
+    }
+    fn expandv(&self, cx: &HeContext) -> Self {
+        RelinKeys::new(expand_ksk(self.as_kswitch_keys(), cx))
+    }
+}
+impl EqvX for GaloisKeys {
+    const NAME: &'static str = "GaloisKeys";
+    fn diffv(&self, o: &Self) -> D {
+        ksk_diff(self.as_kswitch_keys(), o.as_kswitch_keys())
+    }
+    fn expandv(&self, cx: &HeContext) -> Self {
+        GaloisKeys::new(expand_ksk(self.as_kswitch_keys(), cx))
+    }
+}
+impl EqvX for Vec<Ciphertext> {
+    const NAME: &'static str = "Vec<Ciphertext>";
+    fn diffv(&self, o: &Self) -> D {
+        if self.len() != o.len() {
+            return d("len", self.len(), o.len());
+        }
+        self.iter().zip(o).enumerate().find_map(|(i, (x, y))| ct_diff(x, y).map(|(f, m)| (f, format!("[{i}] {m}"))))
+    }
+    fn expandv(&self, cx: &HeContext) -> Self {
+        self.iter().map(|c| expand_ct(c, cx)).collect()
+    }
+}
+impl EqvX for Vec<PublicKey> {
+    const NAME: &'static str = "Vec<PublicKey>";
+    fn diffv(&self, o: &Self) -> D {
+        if self.len() != o.len() {
+            return d("len", self.len(), o.len());
+        }
+        self.iter().zip(o).enumerate().find_map(|(i, (x, y))| ct_diff(x.as_ciphertext(), y.as_ciphertext()).map(|(f, m)| (f, format!("[{i}] {m}"))))
+    }
+    fn expandv(&self, cx: &HeContext) -> Self {
+        self.iter().map(|p| p.expandv(cx)).collect()
+    }
+}
+fn c1_diff(a: &Cipher1d, b: &Cipher1d) -> D {
+    if a.data.len() != b.data.len() {
+        return d("len", a.data.len(), b.data.len());
+    }
+    a.data.iter().zip(&b.data).enumerate().find_map(|(i, (x, y))| ct_diff(x, y).map(|(f, m)| (f, format!("[{i}] {m}"))))
+}
+fn c2_diff(a: &Cipher2d, b: &Cipher2d) -> D {
+    if a.data.len() != b.data.len() {
+        return d("len", a.data.len(), b.data.len());
+    }
+    a.data.iter().zip(&b.data).enumerate().find_map(|(i, (x, y))| c1_diff(x, y).map(|(f, m)| (f, format!("[{i}] {m}"))))
+}
+fn c3_diff(a: &Cipher3d, b: &Cipher3d) -> D {
+    if a.data.len() != b.data.len() {
+        return d("len", a.data.len(), b.data.len());
+    }
+    a.data.iter().zip(&b.data).enumerate().find_map(|(i, (x, y))| c2_diff(x, y).map(|(f, m)| (f, format!("[{i}] {m}"))))
+}
+fn c1_map(a: &Cipher1d, f: &dyn Fn(&Ciphertext) -> Ciphertext) -> Cipher1d {
+    Cipher1d::new(a.data.iter().map(f).collect())
+}
+fn c2_map(a: &Cipher2d, f: &dyn Fn(&Ciphertext) -> Ciphertext) -> Cipher2d {
+    Cipher2d::new_1ds(a.data.iter().map(|x| c1_map(x, f)).collect())
+}
+fn c3_map(a: &Cipher3d, f: &dyn Fn(&Ciphertext) -> Ciphertext) -> Cipher3d {
+    Cipher3d::new_2ds(a.data.iter().map(|x| c2_map(x, f)).collect())
+}
+impl EqvX for Cipher1d {
+    const NAME: &'static str = "Cipher1d";
+    fn diffv(&self, o: &Self) -> D {
+        c1_diff(self, o)
+    }
+    fn expandv(&self, cx: &HeContext) -> Self {
+        c1_map(self, &|c| expand_ct(c, cx))
+    }
+}
+impl EqvX for Cipher2d {
+    const NAME: &'static str = "Cipher2d";
+    fn diffv(&self, o: &Self) -> D {
+        c2_diff(self, o)
+    }
+    fn expandv(&self, cx: &HeContext) -> Self {
+        c2_map(self, &|c| expand_ct(c, cx))
+    }
+}
+impl EqvX for Cipher3d {
+    const NAME: &'static str = "Cipher3d";
+    fn diffv(&self, o: &Self) -> D {
+        c3_diff(self, o)
+    }
+    fn expandv(&self, cx: &HeContext) -> Self {
+        c3_map(self, &|c| expand_ct(c, cx))
+    }
+}
+
+/// Ciphertext::serialize_full / deserialize_full
+#[derive(Clone)]
+struct Full(Ciphertext);
+impl Obj for Full {
+    type Cx = HeContext;
+    fn kind() -> &'static str {
+        "Ciphertext.full"
+    }
+    fn ser(&self, cx: &HeContext, w: &mut Vec<u8>) -> io::Result<usize> {
+        self.0.serialize_full(cx, w)
+    }
+    fn de(cx: &HeContext, r: &mut &[u8], _like: &Self) -> io::Result<Self> {
+        Ok(Full(Ciphertext::deserialize_full(cx, r)?))
+    }
+    fn size(&self, cx: &HeContext) -> usize {
+        self.0.serialized_full_size(cx)
+    }
+    fn expected(&self, cx: &HeContext) -> Self {
+        Full(expand_ct(&self.0, cx))
+    }
+    fn diff(&self, got: &Self) -> D {
+        ct_diff(&self.0, &got.0)
+    }
+}
+
+/// reference data of the selected-terms oracle for one ciphertext: c0 in coefficient form
+/// (naive inverse evaluation map when the ciphertext is in NTT form) and (psi, q) per component
+struct TermsRef {
+    c0_coeff: Vec<u64>,
+    roots: Vec<(u64, u64)>,
+    /// pw[j][i*n + t] = (psi_j^(2*brv(i)+1))^t mod q_j: the evaluation map of `naive_ntt` as a table
+    pw: Vec<Vec<u64>>,
+}
+fn terms_ref(ct: &Ciphertext, cx: &HeContext) -> TermsRef {
+    let cd = cx.get_context_data(ct.parms_id()).expect("level of the ciphertext");
+    let n = ct.poly_modulus_degree();
+    let roots: Vec<(u64, u64)> = cd.parms().coeff_modulus().iter().zip(cd.small_ntt_tables()).map(|(m, t)| (t.root(), m.value())).collect();
+    let mut c0 = Vec::with_capacity(n * roots.len());
+    for (j, &(psi, q)) in roots.iter().enumerate() {
+        let comp = ct.poly_component(0, j);
+        if ct.is_ntt_form() {
+            let co = naive_intt(comp, psi, q);
+            assert_eq!(naive_ntt(&co, psi, q), comp.to_vec(), "reference NTT pair is not a bijection");
+            c0.extend(co);
+        } else {
+            c0.extend_from_slice(comp);
+        }
+    }
+    let bits = n.trailing_zeros();
+    let mut pw = vec![];
+    if ct.is_ntt_form() {
+        for &(psi, q) in &roots {
+            let mut tab = vec![0u64; n * n];
+            for i in 0..n {
+                let x = crate::refmodel::bigu::pow_mod(psi, 2 * crate::refmodel::poly::bit_reverse(i, bits) as u64 + 1, q);
+                let mut p = 1 % q;
+                for t in 0..n {
+                    tab[i * n + t] = p;
+                    p = crate::refmodel::bigu::mul_mod(p, x, q);
+                }
+            }
+            pw.push(tab);
+        }
+    }
+    let tr = TermsRef { c0_coeff: c0, roots, pw };
+    if ct.is_ntt_form() {
+        // the table form of the evaluation map agrees with naive_ntt on the full polynomial
+        let all: Vec<usize> = (0..n).collect();
+        for j in 0..tr.roots.len() {
+            assert_eq!(eval_terms(&tr, j, n, &all), ct.poly_component(0, j).to_vec(), "reference evaluation table");
+        }
+    }
+    tr
+}
+/// NTT-form component j of the polynomial that keeps only the coefficients listed in `terms`
+fn eval_terms(tr: &TermsRef, j: usize, n: usize, terms: &[usize]) -> Vec<u64> {
+    let q = tr.roots[j].1;
+    let tab = &tr.pw[j];
+    (0..n)
+        .map(|i| {
+            let mut acc = 0u128;
+            for &t in terms {
+                acc += (tr.c0_coeff[j * n + t] as u128 * tab[i * n + t] as u128) % q as u128;
+            }
+            (acc % q as u128) as u64
+        })
+        .collect()
+}
+/// expected result of serialize_terms + deserialize_terms
+fn terms_expected(ct: &Ciphertext, cx: &HeContext, terms: &[usize], tr: &TermsRef) -> Ciphertext {
+    let mut e = expand_ct(ct, cx);
+    let n = ct.poly_modulus_degree();
+    for j in 0..tr.roots.len() {
+        let comp = if ct.is_ntt_form() {
+            eval_terms(tr, j, n, terms)
+        } else {
+            let mut comp = vec![0u64; n];
+            for &t in terms {
+                comp[t] = tr.c0_coeff[j * n + t];
+            }
+            comp
+        };
+        e.poly_component_mut(0, j).copy_from_slice(&comp);
+    }
+    e
+}
+
+struct Terms {
+    ct: Arc<Ciphertext>,
+    terms: Vec<usize>,
+    tr: Arc<TermsRef>,
+}
+impl Obj for Terms {
+    type Cx = HeContext;
+    fn kind() -> &'static str {
+        "Ciphertext.terms"
+    }
+    fn ser(&self, cx: &HeContext, w: &mut Vec<u8>) -> io::Result<usize> {
+        self.ct.serialize_terms(cx, &self.terms, w)
+    }
+    fn de(cx: &HeContext, r: &mut &[u8], like: &Self) -> io::Result<Self> {
+        Ok(Terms { ct: Arc::new(Ciphertext::deserialize_terms(cx, &like.terms, r)?), terms: like.terms.clone(), tr: like.tr.clone() })
+    }
+    fn size(&self, cx: &HeContext) -> usize {
+        self.ct.serialized_terms_size(cx, self.terms.len())
+    }
+    fn expected(&self, cx: &HeContext) -> Self {
+        Terms { ct: Arc::new(terms_expected(&self.ct, cx, &self.terms, &self.tr)), terms: self.terms.clone(), tr: self.tr.clone() }
+    }
+    fn diff(&self, got: &Self) -> D {
+        ct_diff(&self.ct, &got.ct).map(|(f, m)| (f, format!("terms={:?}: {m}", self.terms)))
+    }
+}
+
+/// Cipher{1,2,3}d::serialize_terms
+macro_rules! terms_container {
+    ($name:ident, $t:ty, $kind:expr, $map:ident, $diff:ident) => {
+        struct $name {
+            c: $t,
+            terms: Vec<usize>,
+        }
+        impl Obj for $name {
+            type Cx = HeContext;
+            fn kind() -> &'static str {
+                $kind
+            }
+            fn ser(&self, cx: &HeContext, w: &mut Vec<u8>) -> io::Result<usize> {
+                self.c.serialize_terms(cx, &self.terms, w)
+            }
+            fn de(cx: &HeContext, r: &mut &[u8], like: &Self) -> io::Result<Self> {
+                Ok($name { c: <$t>::deserialize_terms(cx, &like.terms, r)?, terms: like.terms.clone() })
+            }
+            fn size(&self, cx: &HeContext) -> usize {
+                self.c.serialized_terms_size(cx, self.terms.len())
+            }
+            fn expected(&self, cx: &HeContext) -> Self {
+                let terms = self.terms.clone();
+                $name { c: $map(&self.c, &|c| terms_expected(c, cx, &terms, &terms_ref(c, cx))), terms: self.terms.clone() }
+            }
+            fn diff(&self, got: &Self) -> D {
+                $diff(&self.c, &got.c).map(|(f, m)| (f, format!("terms={:?}: {m}", self.terms)))
+            }
+        }
+    };
+}
+terms_container!(Terms1d, Cipher1d, "Cipher1d.terms", c1_map, c1_diff);
+terms_container!(Terms2d, Cipher2d, "Cipher2d.terms", c2_map, c2_diff);
+terms_container!(Terms3d, Cipher3d, "Cipher3d.terms", c3_map, c3_diff);
+
+/// PolynomialSerializer
+#[derive(Clone)]
+struct PolyItem {
+    data: Vec<u64>,
+    id: ParmsID,
+}
+impl Obj for PolyItem {
+    type Cx = HeContext;
+    fn kind() -> &'static str {
+        "PolynomialSerializer"
+    }
+    fn ser(&self, cx: &HeContext, w: &mut Vec<u8>) -> io::Result<usize> {
+        PolynomialSerializer::serialize_polynomial(cx, w, &self.data, self.id)
+    }
+    fn de(cx: &HeContext, r: &mut &[u8], like: &Self) -> io::Result<Self> {
+        Ok(PolyItem { data: PolynomialSerializer::deserialize_polynomial(cx, r)?, id: like.id })
+    }
+    fn size(&self, cx: &HeContext) -> usize {
+        (PolynomialSerializer {}).serialized_polynomial_size(cx, self.id)
+    }
+    fn expected(&self, cx: &HeContext) -> Self {
+        let mut data = self.data.clone();
+        if self.id == PARMS_ID_ZERO {
+            // coefficient-form plaintext: padded with zeros to the ring degree
+            data.resize(cx.first_context_data().unwrap().parms().poly_modulus_degree(), 0);
+        }
+        PolyItem { data, id: self.id }
+    }
+    fn diff(&self, got: &Self) -> D {
+        if self.data.len() != got.data.len() {
+            return d("len", self.data.len(), got.data.len());
+        }
+        first_diff(&self.data, &got.data).map(|i| ("data".to_string(), format!("data[{i}]: expected {:#x}, restored {:#x}", self.data[i], got.data[i])))
+    }
+}
+
+// ---------------------------------------------------------------------------------------------
+// builders of the object variants
+// ---------------------------------------------------------------------------------------------
+
+fn level_ids(ctx: &HeContext) -> Vec<(String, ParmsID)> {
+    // key level first (if distinct), then the data levels first..last
+    let mut v = vec![];
+    let key = *ctx.key_parms_id();
+    let first = *ctx.first_parms_id();
+    if key != first {
+        v.push(("key".to_string(), key));
+    }
+    let mut cd = ctx.first_context_data();
+    let mut i = 0;
+    while let Some(c) = cd {
+        v.push((format!("L{i}"), *c.parms_id()));
+        cd = c.next_context_data();
+        i += 1;
+    }
+    v
+}
+
+fn moduli_of(ctx: &HeContext, id: &ParmsID) -> Vec<u64> {
+    ctx.get_context_data(id).unwrap().parms().coeff_modulus().iter().map(|m| m.value()).collect()
+}
+
+/// ciphertext with residues chosen by `fill` (extremes q-1 / 0 included in every component)
+fn crafted_ct(ctx: &HeContext, id: &ParmsID, size: usize, ntt: bool, seed: u64, tag: u64) -> Ciphertext {
+    let qs = moduli_of(ctx, id);
+    let n = ctx.get_context_data(id).unwrap().parms().poly_modulus_degree();
+    let k = qs.len();
+    let mut data = vec![0u64; size * k * n];
+    for p in 0..size {
+        for (j, &q) in qs.iter().enumerate() {
+            for i in 0..n {
+                data[(p * k + j) * n + i] = fill(seed, tag.wrapping_mul(1000003).wrapping_add((p * 64 + j) as u64), i + p + 2 * j, q);
+            }
+        }
+    }
+    Ciphertext::from_members(size, k, n, data, *id, 1.0, 1, ntt)
+}
+
+/// NTT-form plaintext (CKKS plaintext, or a BFV/BGV plaintext after transform_plain_to_ntt) with crafted residues
+fn crafted_ntt_plain(ctx: &HeContext, id: &ParmsID, scale: f64, seed: u64, tag: u64) -> Plaintext {
+    let qs = moduli_of(ctx, id);
+    let n = ctx.get_context_data(id).unwrap().parms().poly_modulus_degree();
+    let mut p = Plaintext::new();
+    p.resize(n * qs.len());
+    for (j, &q) in qs.iter().enumerate() {
+        for i in 0..n {
+            p.data_mut()[j * n + i] = fill(seed, tag + j as u64, i + j, q);
+        }
+    }
+    p.set_parms_id(*id);
+    p.set_scale(scale);
+    p
+}
+
+fn coeff_plain(t: u64, len: usize, seed: u64, tag: u64) -> Plaintext {
+    let mut p = Plaintext::new();
+    p.resize(len);
+    for i in 0..len {
+        p.data_mut()[i] = fill(seed, tag, i, t);
+    }
+    p
+}
+
+/// a plaintext the encryptor accepts (first level)
+fn sample_plain(kit: &Kit, seed: u64) -> Plaintext {
+    match kit.spec.scheme {
+        Scheme::CKKS => crafted_ntt_plain(&kit.ctx, kit.ctx.first_parms_id(), 1024.0, seed, 11),
+        _ => coeff_plain(kit.spec.t, kit.spec.n, seed, 11),
+    }
+}
+
+const SCALES: [f64; 4] = [1.0, 1048576.0, 1234567.890625, 9.5367431640625e-7];
+
+fn seeded_tag(c: &Ciphertext) -> &'static str {
+    if c.contains_seed() {
+        "seeded"
+    } else {
+        "expanded"
+    }
+}
+
+/// every ciphertext variant of a parameter set: (class, label, ciphertext)
+fn ct_variants(kit: &Kit, deep: bool, seed: u64, st: &mut Stats) -> Vec<(String, String, Ciphertext)> {
+    let mut v: Vec<(String, String, Ciphertext)> = vec![];
+    let ctx = &kit.ctx;
+    let scheme = kit.spec.scheme;
+    let plain = sample_plain(kit, seed);
+    let real = |v: &mut Vec<(String, String, Ciphertext)>, st: &mut Stats, class: &str, label: String, f: &dyn Fn() -> Ciphertext| -> Option<Ciphertext> {
+        match guard(f) {
+            Ok(c) => {
+                v.push((format!("{class}-{}", seeded_tag(&c)), label, c.clone()));
+                Some(c)
+            }
+            Err(p) => {
+                st.skipped.insert(format!("{class}: refused ({})", panic_class(&p)));
+                None
+            }
+        }
+    };
+    let fresh = real(&mut v, st, "fresh-pk", "encrypt_new".into(), &|| kit.enc.encrypt_new(&plain));
+    real(&mut v, st, "sym", "encrypt_symmetric_new".into(), &|| kit.enc.encrypt_symmetric_new(&plain));
+    real(&mut v, st, "sym", "encrypt_symmetric (no seed)".into(), &|| {
+        let mut c = Ciphertext::new();
+        kit.enc.encrypt_symmetric(&plain, &mut c);
+        c
+    });
+    for (lname, id) in level_ids(ctx) {
+        if lname == "key" {
+            continue;
+        }
+        real(&mut v, st, "zero-sym", format!("encrypt_zero_symmetric_new_at({lname})"), &|| kit.enc.encrypt_zero_symmetric_new_at(&id));
+        real(&mut v, st, "zero-pk", format!("encrypt_zero_new_at({lname})"), &|| kit.enc.encrypt_zero_new_at(&id));
+    }
+    if let Some(f) = &fresh {
+        let sq = real(&mut v, st, "evaluated", "multiply_new(fresh,fresh) (size 3)".into(), &|| kit.eval.multiply_new(f, f));
+        if let Some(sq) = &sq {
+            real(&mut v, st, "evaluated", "multiply_new(size3,fresh) (size 4)".into(), &|| kit.eval.multiply_new(sq, f));
+        }
+        real(&mut v, st, "evaluated", "mod_switch_to_next_new(fresh)".into(), &|| kit.eval.mod_switch_to_next_new(f));
+        if scheme == Scheme::BFV {
+            real(&mut v, st, "evaluated", "transform_to_ntt_new(fresh)".into(), &|| kit.eval.transform_to_ntt_new(f));
+        } else {
+            real(&mut v, st, "evaluated", "transform_from_ntt_new(fresh)".into(), &|| kit.eval.transform_from_ntt_new(f));
+        }
+    }
+    // crafted: every level (incl. the key level) x size x representation, metadata cycling
+    let sizes: Vec<usize> = if deep { (2..=16).collect() } else { vec![2, 3, 4, 16] };
+    let t = kit.spec.t;
+    let mut idx = 0usize;
+    for (lname, id) in level_ids(ctx) {
+        for &size in &sizes {
+            for ntt in [false, true] {
+                let mut c = crafted_ct(ctx, &id, size, ntt, seed, idx as u64);
+                let mut meta = String::new();
+                match scheme {
+                    Scheme::CKKS => {
+                        c.set_scale(SCALES[idx % SCALES.len()]);
+                        meta = format!(" scale={:e}", c.scale());
+                    }
+                    Scheme::BGV => {
+                        let cf = [1u64, 2 % t.max(2), t.saturating_sub(1).max(1)][idx % 3].max(1);
+                        c.set_correction_factor(cf);
+                        meta = format!(" cf={cf}");
+                    }
+                    Scheme::BFV => {}
+                }
+                let class = if lname == "key" { "crafted-keylevel" } else { "crafted" };
+                if lname != "key" && !c.is_valid_for(ctx) {
+                    st.skipped.insert("crafted: not valid for the context".into());
+                } else {
+                    v.push((class.to_string(), format!("crafted level={lname} size={size} ntt={ntt}{meta}"), c));
+                }
+                idx += 1;
+            }
+        }
+    }
+    v
+}
+
+fn pt_variants(kit: &Kit, seed: u64, st: &mut Stats) -> Vec<(String, String, Plaintext)> {
+    let mut v: Vec<(String, String, Plaintext)> = vec![];
+    let ctx = &kit.ctx;
+    let n = kit.spec.n;
+    v.push(("empty".into(), "Plaintext::new()".into(), Plaintext::new()));
+    if kit.spec.scheme != Scheme::CKKS {
+        let t = kit.spec.t;
+        let mut lens = vec![1usize, n / 2, n - 1, n];
+        lens.dedup();
+        for (i, len) in lens.into_iter().enumerate() {
+            if len == 0 {
+                continue;
+            }
+            v.push(("coeff".into(), format!("coefficient form, {len} coefficients"), coeff_plain(t, len, seed, 20 + i as u64)));
+        }
+        let mut z = Plaintext::new();
+        z.resize(n);
+        v.push(("coeff".into(), "all-zero, N coefficients".into(), z));
+        let p = coeff_plain(t, n, seed, 31);
+        if let Ok(e) = guard(|| BatchEncoder::new(ctx.clone()).encode_new(&p.data()[..n])) {
+            v.push(("coeff".into(), "BatchEncoder::encode_new".into(), e));
+        } else {
+            st.skipped.insert("BatchEncoder refused".into());
+        }
+        if let Ok(e) = guard(|| kit.eval.transform_plain_to_ntt_new(&p, ctx.first_parms_id())) {
+            v.push(("ntt".into(), "transform_plain_to_ntt_new(first level)".into(), e));
+        } else {
+            st.skipped.insert("transform_plain_to_ntt refused".into());
+        }
+    } else {
+        let r = guard(|| {
+            let enc = CKKSEncoder::new(ctx.clone());
+            let vals: Vec<num_complex::Complex<f64>> = (0..n / 2).map(|i| num_complex::Complex::new(i as f64 - 1.0, 0.5)).collect();
+            enc.encode_c64_array_new(&vals, None, 4.0)
+        });
+        match r {
+            Ok(e) => v.push(("ntt".into(), "CKKSEncoder::encode_c64_array_new scale=4".into(), e)),
+            Err(_) => {
+                st.skipped.insert("CKKSEncoder refused".into());
+            }
+        }
+    }
+    for (i, (lname, id)) in level_ids(ctx).into_iter().enumerate() {
+        if lname == "key" {
+            continue;
+        }
+        let scale = if kit.spec.scheme == Scheme::CKKS { SCALES[i % SCALES.len()] } else { 1.0 };
+        v.push(("ntt".into(), format!("crafted NTT form level={lname} scale={scale:e}"), crafted_ntt_plain(ctx, &id, scale, seed, 40 + i as u64)));
+    }
+    v
+}
+
+/// all subsets of 0..n as ascending index lists, by increasing mask
+fn subset(mask: u32, n: usize) -> Vec<usize> {
+    (0..n).filter(|i| mask >> i & 1 == 1).collect()
+}
+/// a fixed non-monotone rearrangement (reverse, then rotate by one)
+fn shuffled(v: &[usize]) -> Vec<usize> {
+    let mut s: Vec<usize> = v.iter().rev().copied().collect();
+    if s.len() > 2 {
+        s.rotate_left(1);
+    }
+    s
+}
+
+fn wrap<T, U>(v: Vec<(String, String, T)>, f: impl Fn(T) -> U) -> Vec<Item<U>> {
+    v.into_iter().map(|(c, l, o)| Item { class: c, label: l, obj: f(o) }).collect()
+}
+
+/// rebuild a context from the SERIALIZED parameters and compare the whole chain
+fn rebuilt_context(sec: &str, spec: &ParamSpec, a: &Arc<HeContext>) -> R<Arc<HeContext>> {
+    let key = format!("{sec}:context-rebuild");
+    let p = spec.parms();
+    let mut buf = vec![];
+    io_call(&key, "serialize", "EncryptionParameters", || Serializable::serialize(&p, &mut buf))?;
+    let p2 = io_call(&key, "deserialize", "EncryptionParameters", || <EncryptionParameters as Serializable>::deserialize(&mut &buf[..]))?;
+    let b = call(&key, "HeContext::new", "deserialized parameters", || HeContext::new(p2, true, SecurityLevel::None))?;
+    if !b.parameters_set() {
+        return Err(bad(format!("{key}:not-set"), "parameters_set() in the rebuilt context", "false"));
+    }
+    let ids = |c: &HeContext| -> Vec<ParmsID> {
+        let mut v = vec![*c.key_parms_id(), *c.first_parms_id(), *c.last_parms_id()];
+        let mut cd = c.key_context_data();
+        while let Some(x) = cd {
+            v.push(*x.parms_id());
+            cd = x.next_context_data();
+        }
+        v
+    };
+    if ids(a) != ids(&b) {
+        return Err(bad(format!("{key}:chain-differs"), format!("{:?}", ids(a)), format!("{:?}", ids(&b))));
+    }
+    Ok(b)
+}
+
+// ---------------------------------------------------------------------------------------------
+// object kinds
+// ---------------------------------------------------------------------------------------------
+
+const KINDS: &[&str] = &["params", "plaintext", "ct", "keys", "relin", "galois", "kswitch", "polyser", "containers", "use"];
+
+#[derive(Serialize, Deserialize, Clone, Debug)]
+pub struct Case {
+    pub spec: ParamSpec,
+    pub kind: String,
+    /// thorough-tier bounds (part of the case so that a replay repeats them)
+    #[serde(default)]
+    pub deep: bool,
+}
+
+/// library ExpandSeed of a whole object versus the harness's element-wise expansion
+fn expand_impl_check<T: EqvX + ExpandSeed>(sec: &str, label: &str, obj: &T, a: &HeContext, st: &mut Stats) -> R<()> {
+    if !obj.contains_seed() {
+        return Ok(());
+    }
+    let key = format!("{sec}:{}:ExpandSeed", T::NAME);
+    let lib = call(&key, "expand_seed", label, || obj.clone().expand_seed(a))?;
+    st.steps += 1;
+    if let Some((f, m)) = obj.expandv(a).diffv(&lib) {
+        return Err(bad(format!("{key}:differs:{f}"), format!("{label}: expand_seed expands every seeded element"), m));
+    }
+    if lib.contains_seed() {
+        return Err(bad(format!("{key}:still-seeded"), format!("{label}: contains_seed() false after expand_seed"), "true"));
+    }
+    Ok(())
+}
+
+fn kind_params(sec: &str, kit: &Kit, ctxs: &Ctxs, st: &mut Stats) -> R<()> {
+    let a = &ctxs[0].1;
+    let mut ps: Vec<Item<NoCtx<EncryptionParameters>>> = vec![];
+    ps.push(item("key-level", "parameters of the spec", NoCtx(kit.spec.parms())));
+    let mut flipped = kit.spec.clone();
+    flipped.special_enc = !flipped.special_enc;
+    ps.push(item("special-flag-flipped", format!("use_special_prime_for_encryption={}", flipped.special_enc), NoCtx(flipped.parms())));
+    let mut ids = vec![];
+    let mut mods: Vec<Item<NoCtx<Vec<Modulus>>>> = vec![];
+    for (l, id) in level_ids(a) {
+        let cd = a.get_context_data(&id).unwrap();
+        ps.push(item("chain-level", format!("parameters of level {l}"), NoCtx(cd.parms().clone())));
+        mods.push(item("coeff_modulus", format!("coeff_modulus of level {l}"), NoCtx(cd.parms().coeff_modulus().clone())));
+        ids.push(item("level-id", format!("parms_id of level {l}"), NoCtx(id)));
+    }
+    ids.push(item("zero", "PARMS_ID_ZERO", NoCtx(PARMS_ID_ZERO)));
+    mods.push(item("empty", "empty Vec<Modulus>", NoCtx(Vec::<Modulus>::new())));
+    stream_check(sec, &ps, ctxs, st)?;
+    stream_check(sec, &mods, ctxs, st)?;
+    stream_check(sec, &ids, ctxs, st)?;
+    let mut ms: Vec<Item<NoCtx<Modulus>>> = kit.spec.q.iter().map(|&q| item("coeff", format!("Modulus({q})"), NoCtx(Modulus::new(q)))).collect();
+    ms.push(item("plain", format!("plain modulus {}", kit.spec.t), NoCtx(*a.key_context_data().unwrap().parms().plain_modulus())));
+    stream_check(sec, &ms, ctxs, st)
+}
+
+fn kind_plaintext(sec: &str, kit: &Kit, ctxs: &Ctxs, seed: u64, st: &mut Stats) -> R<()> {
+    let items = wrap(pt_variants(kit, seed, st), NoCtx);
+    stream_check(sec, &items, ctxs, st)
+}
+
+fn kind_ct(sec: &str, kit: &Kit, ctxs: &Ctxs, deep: bool, seed: u64, st: &mut Stats) -> R<()> {
+    let vars = ct_variants(kit, deep, seed, st);
+    let a = &ctxs[0].1;
+    for (_, label, c) in &vars {
+        expand_impl_check(sec, label, c, a, st)?;
+    }
+    let compact = wrap(vars.clone(), WithCtx);
+    stream_check(sec, &compact, ctxs, st)?;
+    let all: Vec<Ciphertext> = vars.iter().map(|x| x.2.clone()).collect();
+    stream_check(sec, &[item("empty", "empty Vec<Ciphertext>", WithCtx(Vec::<Ciphertext>::new())), item("many", "all ciphertext variants in one Vec", WithCtx(all))], ctxs, st)?;
+    let full = wrap(vars, Full);
+    stream_check(sec, &full, ctxs, st)
+}
+
+fn seeded_class<T: ExpandSeed>(o: &T) -> &'static str {
+    if o.contains_seed() {
+        "seeded"
+    } else {
+        "expanded"
+    }
+}
+
+fn kind_keys(sec: &str, kit: &Kit, ctxs: &Ctxs, st: &mut Stats) -> R<()> {
+    let a = &ctxs[0].1;
+    let other = KeyGenerator::new(a.clone());
+    let sks = vec![
+        item("keygen", "secret key of the key generator", NoCtx(kit.sk.clone())),
+        item("empty", "SecretKey::default()", NoCtx(SecretKey::default())),
+        item("keygen", "secret key of a second generator", NoCtx(other.secret_key().clone())),
+    ];
+    stream_check(sec, &sks, ctxs, st)?;
+    let mut pks = vec![];
+    // key creation itself is not judged here: with primes below 2*21 the noise sampler cannot
+    // represent its samples and refuses (panics) - such variants are skipped
+    for (who, kg) in [("generator", &kit.keygen), ("second generator", &other)] {
+        for save in [false, true] {
+            match guard(|| kg.create_public_key(save)) {
+                Ok(pk) => {
+                    expand_impl_check(sec, "public key", &pk, a, st)?;
+                    pks.push(item(seeded_class(&pk), format!("{who}: create_public_key({save})"), WithCtx(pk)));
+                }
+                Err(p) => {
+                    st.skipped.insert(format!("public key creation refused ({})", panic_class(&p)));
+                }
+            }
+        }
+    }
+    stream_check(sec, &pks, ctxs, st)
+}
+
+fn kind_relin(sec: &str, kit: &Kit, ctxs: &Ctxs, st: &mut Stats) -> R<()> {
+    let a = &ctxs[0].1;
+    let mut items = vec![item("empty", "RelinKeys::default()", WithCtx(RelinKeys::default()))];
+    for save in [false, true] {
+        match guard(|| kit.keygen.create_relin_keys(save)) {
+            Ok(k) => {
+                expand_impl_check(sec, "relin keys", &k, a, st)?;
+                items.push(item(seeded_class(&k), format!("create_relin_keys({save})"), WithCtx(k)));
+            }
+            Err(p) => {
+                st.skipped.insert(format!("relin keys refused ({})", panic_class(&p)));
+            }
+        }
+    }
+    stream_check(sec, &items, ctxs, st)
+}
+
+fn kind_galois(sec: &str, kit: &Kit, ctxs: &Ctxs, st: &mut Stats) -> R<()> {
+    let a = &ctxs[0].1;
+    let n = kit.spec.n;
+    let mut items = vec![item("empty", "GaloisKeys::default()", WithCtx(GaloisKeys::default()))];
+    let add = |items: &mut Vec<Item<WithCtx<GaloisKeys>>>, st: &mut Stats, label: String, f: &dyn Fn() -> GaloisKeys| -> R<()> {
+        match guard(f) {
+            Ok(k) => {
+                expand_impl_check(sec, &label, &k, a, st)?;
+                let present = k.as_kswitch_keys().len();
+                let total = k.as_kswitch_keys().keys().len();
+                let class = format!("{}{}", seeded_class(&k), if present < total { "-missing-entries" } else { "" });
+                items.push(item(&class, format!("{label}: {present} of {total} entries present"), WithCtx(k)));
+            }
+            Err(p) => {
+                st.skipped.insert(format!("galois keys refused ({})", panic_class(&p)));
+            }
+        }
+        Ok(())
+    };
+    for save in [false, true] {
+        add(&mut items, st, format!("create_galois_keys({save})"), &|| kit.keygen.create_galois_keys(save))?;
+        add(&mut items, st, format!("create_galois_keys_from_elts([3],{save})"), &|| kit.keygen.create_galois_keys_from_elts(&[3], save))?;
+        add(&mut items, st, format!("create_galois_keys_from_elts([2N-1],{save})"), &|| kit.keygen.create_galois_keys_from_elts(&[2 * n - 1], save))?;
+        add(&mut items, st, format!("create_galois_keys_from_elts([],{save})"), &|| kit.keygen.create_galois_keys_from_elts(&[], save))?;
+        let all: Vec<usize> = (0..n).map(|i| 2 * i + 1).collect();
+        add(&mut items, st, format!("create_galois_keys_from_elts(all odd,{save})"), &|| kit.keygen.create_galois_keys_from_elts(&all, save))?;
+        add(&mut items, st, format!("create_galois_keys_from_steps([1],{save})"), &|| kit.keygen.create_galois_keys_from_steps(&[1], save))?;
+    }
+    stream_check(sec, &items, ctxs, st)
+}
+
+fn kind_kswitch(sec: &str, kit: &Kit, ctxs: &Ctxs, st: &mut Stats) -> R<()> {
+    let a = &ctxs[0].1;
+    let other = KeyGenerator::new(a.clone());
+    let mut items = vec![item("empty", "KSwitchKeys::default()", WithCtx(KSwitchKeys::default()))];
+    let mut vecs: Vec<Item<WithCtx<Vec<PublicKey>>>> = vec![item("empty", "empty Vec<PublicKey>", WithCtx(vec![]))];
+    for save in [false, true] {
+        match guard(|| kit.keygen.create_keyswitching_key(other.secret_key(), save)) {
+            Ok(k) => {
+                expand_impl_check(sec, "key-switching key", &k, a, st)?;
+                vecs.push(item(seeded_class(&k), format!("entry 0 of create_keyswitching_key(_, {save})"), WithCtx(k.keys()[0].clone())));
+                items.push(item(seeded_class(&k), format!("create_keyswitching_key(_, {save})"), WithCtx(k)));
+            }
+            Err(p) => {
+                st.skipped.insert(format!("key-switching key refused ({})", panic_class(&p)));
+            }
+        }
+    }
+    stream_check(sec, &items, ctxs, st)?;
+    stream_check(sec, &vecs, ctxs, st)
+}
+
+fn kind_polyser(sec: &str, kit: &Kit, ctxs: &Ctxs, seed: u64, st: &mut Stats) -> R<()> {
+    let a = &ctxs[0].1;
+    let mut items: Vec<Item<PolyItem>> = vec![];
+    for (i, (l, id)) in level_ids(a).into_iter().enumerate() {
+        let c = crafted_ct(a, &id, 2, false, seed, 500 + i as u64);
+        for p in 0..2 {
+            items.push(item("rns", format!("polynomial {p} of a crafted ciphertext at level {l}"), PolyItem { data: c.poly(p).to_vec(), id }));
+        }
+    }
+    if kit.spec.scheme != Scheme::CKKS {
+        let n = kit.spec.n;
+        let mut lens = vec![0usize, 1, n / 2, n];
+        lens.dedup();
+        for (i, len) in lens.into_iter().enumerate() {
+            let p = coeff_plain(kit.spec.t, len, seed, 600 + i as u64);
+            items.push(item("plain", format!("coefficient-form plaintext with {len} coefficients (t={})", kit.spec.t), PolyItem { data: p.data().clone(), id: PARMS_ID_ZERO }));
+        }
+    }
+    stream_check(sec, &items, ctxs, st)
+}
+
+fn kind_containers(sec: &str, kit: &Kit, ctxs: &Ctxs, seed: u64, st: &mut Stats) -> R<()> {
+    let a = &ctxs[0].1;
+    let n = kit.spec.n;
+    // plaintext containers
+    let pts: Vec<Plaintext> = pt_variants(kit, seed, st).into_iter().map(|x| x.2).collect();
+    let p = |i: usize| pts[i % pts.len()].clone();
+    let p1 = vec![
+        item("empty", "Plain1d[]", NoCtx(Plain1d::new(vec![]))),
+        item("one", "Plain1d[p0]", NoCtx(Plain1d::new(vec![p(0)]))),
+        item("many", "Plain1d[all plaintext variants]", NoCtx(Plain1d::new(pts.clone()))),
+    ];
+    stream_check(sec, &p1, ctxs, st)?;
+    let p2 = vec![
+        item("empty", "Plain2d[]", NoCtx(Plain2d::new(vec![]))),
+        item("empty-row", "Plain2d[[]]", NoCtx(Plain2d::new(vec![vec![]]))),
+        item("ragged", "Plain2d[[],[p1],[p2,p3,p4]]", NoCtx(Plain2d::new(vec![vec![], vec![p(1)], vec![p(2), p(3), p(4)]]))),
+    ];
+    stream_check(sec, &p2, ctxs, st)?;
+    let p3 = vec![
+        item("empty", "Plain3d[]", NoCtx(Plain3d::new_2ds(vec![]))),
+        item("empty-nested", "Plain3d[[],[[]]]", NoCtx(Plain3d::new_2ds(vec![Plain2d::new(vec![]), Plain2d::new(vec![vec![]])]))),
+        item("ragged", "Plain3d[[[p0],[p1,p2]],[],[[p3]]]", NoCtx(Plain3d::new_2ds(vec![Plain2d::new(vec![vec![p(0)], vec![p(1), p(2)]]), Plain2d::new(vec![]), Plain2d::new(vec![vec![p(3)]])]))),
+    ];
+    stream_check(sec, &p3, ctxs, st)?;
+
+    // ciphertext containers
+    let vars = ct_variants(kit, false, seed, st);
+    let pick = |pred: &dyn Fn(&(String, String, Ciphertext)) -> bool| -> Vec<Ciphertext> { vars.iter().filter(|x| pred(x)).map(|x| x.2.clone()).collect() };
+    let seeded = pick(&|x| x.2.contains_seed());
+    let mut plainish = pick(&|x| !x.2.contains_seed() && x.0.starts_with("fresh"));
+    plainish.extend(pick(&|x| x.0 == "crafted" && x.2.size() == 3).into_iter().rev().take(2));
+    plainish.extend(pick(&|x| x.0 == "crafted" && x.2.size() == 16).into_iter().take(1));
+    if plainish.is_empty() {
+        plainish = pick(&|x| !x.2.contains_seed());
+    }
+    let e = |i: usize| plainish[i % plainish.len()].clone();
+    let mut c1: Vec<(String, String, Cipher1d)> = vec![
+        ("empty".into(), "Cipher1d[]".into(), Cipher1d::new(vec![])),
+        ("expanded".into(), "Cipher1d[e0]".into(), Cipher1d::new(vec![e(0)])),
+        ("expanded".into(), "Cipher1d[e0,e1,e2,e3] (levels and sizes differ)".into(), Cipher1d::new(vec![e(0), e(1), e(2), e(3)])),
+    ];
+    let mut c2: Vec<(String, String, Cipher2d)> = vec![
+        ("empty".into(), "Cipher2d[]".into(), Cipher2d::new(vec![])),
+        ("empty-row".into(), "Cipher2d[[]]".into(), Cipher2d::new(vec![vec![]])),
+        ("ragged".into(), "Cipher2d[[],[e0],[e1,e2]]".into(), Cipher2d::new(vec![vec![], vec![e(0)], vec![e(1), e(2)]])),
+    ];
+    let mut c3: Vec<(String, String, Cipher3d)> = vec![
+        ("empty".into(), "Cipher3d[]".into(), Cipher3d::new_2ds(vec![])),
+        ("empty-nested".into(), "Cipher3d[[],[[]]]".into(), Cipher3d::new_2ds(vec![Cipher2d::new(vec![]), Cipher2d::new(vec![vec![]])])),
+        ("ragged".into(), "Cipher3d[[[e0],[e1,e2]],[],[[e3]]]".into(), Cipher3d::new_2ds(vec![Cipher2d::new(vec![vec![e(0)], vec![e(1), e(2)]]), Cipher2d::new(vec![]), Cipher2d::new(vec![vec![e(3)]])])),
+    ];
+    if !seeded.is_empty() {
+        let s = |i: usize| seeded[i % seeded.len()].clone();
+        let h1 = Cipher1d::new(vec![s(0), s(1), s(2)]);
+        let h2 = Cipher2d::new(vec![vec![s(0)], vec![s(1), s(2)]]);
+        let h3 = Cipher3d::new_2ds(vec![Cipher2d::new(vec![vec![s(0)], vec![s(1), s(2)]]), Cipher2d::new(vec![vec![s(3)]])]);
+        // ExpandSeed of homogeneous containers
+        expand_impl_check(sec, "Cipher1d[s0,s1,s2]", &h1, a, st)?;
+        expand_impl_check(sec, "Cipher2d[[s0],[s1,s2]]", &h2, a, st)?;
+        expand_impl_check(sec, "Cipher3d[[[s0],[s1,s2]],[[s3]]]", &h3, a, st)?;
+        c1.push(("seeded".into(), "Cipher1d[s0,s1,s2]".into(), h1));
+        c1.push(("mixed".into(), "Cipher1d[s0,e0,s1]".into(), Cipher1d::new(vec![s(0), e(0), s(1)])));
+        c2.push(("seeded".into(), "Cipher2d[[s0],[s1,s2]]".into(), h2));
+        c2.push(("mixed".into(), "Cipher2d[[s0,e0],[e1],[s1]]".into(), Cipher2d::new(vec![vec![s(0), e(0)], vec![e(1)], vec![s(1)]])));
+        c3.push(("seeded".into(), "Cipher3d[[[s0],[s1,s2]],[[s3]]]".into(), h3));
+        if std::env::var("C14_TRACE").is_ok() {
+            // observation only (not judged): ExpandSeed of a container whose rows mix seeded and expanded ciphertexts
+            let mixed = Cipher2d::new(vec![vec![s(0), e(0)], vec![s(1)]]);
+            if let Ok(x) = guard(|| mixed.clone().expand_seed(a)) {
+                let left = x.data.iter().flat_map(|r| r.data.iter()).filter(|c| c.contains_seed()).count();
+                eprintln!("OBSERVE Cipher2d[[s,e],[s]].expand_seed leaves {left} seeded ciphertext(s)");
+            }
+        }
+        c3.push(("mixed".into(), "Cipher3d[[[e0],[s0,e1]],[[s1]]]".into(), Cipher3d::new_2ds(vec![Cipher2d::new(vec![vec![e(0)], vec![s(0), e(1)]]), Cipher2d::new(vec![vec![s(1)]])])));
+    } else {
+        st.skipped.insert("no seeded ciphertext available (polynomials shorter than 9 words)".into());
+    }
+    stream_check(sec, &wrap(c1.clone(), WithCtx), ctxs, st)?;
+    stream_check(sec, &wrap(c2.clone(), WithCtx), ctxs, st)?;
+    stream_check(sec, &wrap(c3.clone(), WithCtx), ctxs, st)?;
+    // selected-terms format of the containers
+    let all: Vec<usize> = (0..n).collect();
+    let term_sets: Vec<Vec<usize>> = vec![vec![], vec![0], vec![n - 1, 0], all.clone(), shuffled(&all)];
+    let mut t1 = vec![];
+    let mut t2 = vec![];
+    let mut t3 = vec![];
+    for ts in &term_sets {
+        for (c, l, o) in &c1 {
+            t1.push(item(c, format!("{l} terms={ts:?}"), Terms1d { c: o.clone(), terms: ts.clone() }));
+        }
+        for (c, l, o) in &c2 {
+            t2.push(item(c, format!("{l} terms={ts:?}"), Terms2d { c: o.clone(), terms: ts.clone() }));
+        }
+        for (c, l, o) in &c3 {
+            t3.push(item(c, format!("{l} terms={ts:?}"), Terms3d { c: o.clone(), terms: ts.clone() }));
+        }
+    }
+    stream_check(sec, &t1, ctxs, st)?;
+    stream_check(sec, &t2, ctxs, st)?;
+    stream_check(sec, &t3, ctxs, st)
+}
+
+/// serialize in A, deserialize in B
+fn xfer<T: SerializableWithHeContext>(key: &str, what: &str, o: &T, a: &HeContext, b: &HeContext) -> R<T> {
+    let mut buf = vec![];
+    io_call(key, "serialize", what, || SerializableWithHeContext::serialize(o, a, &mut buf))?;
+    io_call(key, "deserialize", what, || <T as SerializableWithHeContext>::deserialize(b, &mut &buf[..]))
+}
+
+/// restored (seed-compressed, shipped to the rebuilt context) objects are interchangeable with the
+/// locally expanded originals in the operations that consume them
+fn kind_use(sec: &str, kit: &Kit, ctxs: &Ctxs, seed: u64, tag: u64, st: &mut Stats) -> R<()> {
+    let (a, b) = (&ctxs[0].1, &ctxs[1].1);
+    let key = format!("{sec}:use");
+    let plain = sample_plain(kit, seed);
+    // secret key
+    let mut buf = vec![];
+    io_call(&key, "serialize", "secret key", || Serializable::serialize(&kit.sk, &mut buf))?;
+    let sk_b = io_call(&key, "deserialize", "secret key", || <SecretKey as Serializable>::deserialize(&mut &buf[..]))?;
+    let dec_a = Decryptor::new(a.clone(), kit.sk.clone());
+    let dec_b = call(&key, "Decryptor::new", "restored secret key in the rebuilt context", || Decryptor::new(b.clone(), sk_b.clone()))?;
+    // 1. seeded symmetric ciphertext decrypts identically on both sides
+    let ct = match guard(|| kit.enc.encrypt_symmetric_new(&plain)) {
+        Ok(c) => c,
+        Err(p) => {
+            st.skipped.insert(format!("use: symmetric encryption refused ({})", panic_class(&p)));
+            return Ok(());
+        }
+    };
+    let ct_a = expand_ct(&ct, a);
+    let ct_b = xfer(&key, "symmetric ciphertext", &ct, a, b)?;
+    if let Ok(pa) = guard(|| dec_a.decrypt_new(&ct_a)) {
+        let pb = call(&key, "decrypt", "restored ciphertext with the restored secret key", || dec_b.decrypt_new(&ct_b))?;
+        st.steps += 1;
+        st.classes.insert("use:decrypt".into());
+        if let Some((f, m)) = pt_diff(&pa, &pb) {
+            return Err(bad(format!("{key}:decrypt-differs:{f}"), "same decryption on both sides", m));
+        }
+        // decrypts to the message when there is noise head-room (BFV/BGV: q_first >= 2^30 * t)
+        if kit.spec.scheme != Scheme::CKKS {
+            let qbits: u32 = moduli_of(a, a.first_parms_id()).iter().map(|q| 63 - q.leading_zeros()).sum();
+            let tbits = 64 - kit.spec.t.leading_zeros();
+            if qbits >= tbits + 30 {
+                let mut got = pb.data().clone();
+                got.resize(kit.spec.n, 0);
+                let mut want = plain.data().clone();
+                want.resize(kit.spec.n, 0);
+                st.steps += 1;
+                st.classes.insert("use:decrypt-message".into());
+                if got != want {
+                    return Err(bad(format!("{key}:decrypt-message"), format!("{want:?}"), format!("{got:?}")));
+                }
+            }
+        }
+    }
+    // 2. public key: encryption under identical entropy is bit-identical
+    if let Ok(pk) = guard(|| kit.keygen.create_public_key(true)) {
+    let pk_a = pk.expandv(a);
+    let pk_b = xfer(&key, "public key", &pk, a, b)?;
+    he::env_real(seed, tag ^ 0x55);
+    if let Ok(ea) = guard(|| Encryptor::new(a.clone()).set_public_key(pk_a.clone()).encrypt_new(&plain)) {
+        he::env_real(seed, tag ^ 0x55);
+        let eb = call(&key, "encrypt", "restored public key in the rebuilt context", || Encryptor::new(b.clone()).set_public_key(pk_b.clone()).encrypt_new(&plain))?;
+        st.steps += 1;
+        st.classes.insert("use:encrypt".into());
+        if let Some((f, m)) = ct_diff(&ea, &eb) {
+            return Err(bad(format!("{key}:encrypt-differs:{f}"), "same ciphertext from the expanded and the restored public key", m));
+        }
+    }
+    }
+    let ev_a = Evaluator::new(a.clone());
+    let ev_b = Evaluator::new(b.clone());
+    // 3. relinearization keys
+    if let Ok(rk) = guard(|| kit.keygen.create_relin_keys(true)) {
+        let rk_a = rk.expandv(a);
+        let rk_b = xfer(&key, "relin keys", &rk, a, b)?;
+        if let Ok(c3) = guard(|| ev_a.multiply_new(&ct_a, &ct_a)) {
+            if let Ok(ra) = guard(|| ev_a.relinearize_new(&c3, &rk_a)) {
+                let rb = call(&key, "relinearize", "restored relin keys", || ev_b.relinearize_new(&c3, &rk_b))?;
+                st.steps += 1;
+                st.classes.insert("use:relinearize".into());
+                if let Some((f, m)) = ct_diff(&ra, &rb) {
+                    return Err(bad(format!("{key}:relinearize-differs:{f}"), "same result with expanded and restored keys", m));
+                }
+            }
+        }
+    }
+    // 4. Galois keys: every element that has a key
+    if let Ok(gk) = guard(|| kit.keygen.create_galois_keys(true)) {
+        let gk_a = gk.expandv(a);
+        let gk_b = xfer(&key, "galois keys", &gk, a, b)?;
+        for i in 0..kit.spec.n {
+            let elt = 2 * i + 1;
+            if gk_a.has_key(elt) != gk_b.has_key(elt) {
+                return Err(bad(format!("{key}:has_key"), format!("has_key({elt}) = {}", gk_a.has_key(elt)), format!("{}", gk_b.has_key(elt))));
+            }
+            if !gk_a.has_key(elt) {
+                continue;
+            }
+            if let Ok(ra) = guard(|| ev_a.apply_galois_new(&ct_a, elt, &gk_a)) {
+                let rb = call(&key, "apply_galois", "restored galois keys", || ev_b.apply_galois_new(&ct_b, elt, &gk_b))?;
+                st.steps += 1;
+                st.classes.insert("use:apply_galois".into());
+                if let Some((f, m)) = ct_diff(&ra, &rb) {
+                    return Err(bad(format!("{key}:apply_galois-differs:{f}"), format!("element {elt}: same result"), m));
+                }
+            }
+        }
+    }
+    // 5. key-switching key
+    let other = KeyGenerator::new(a.clone());
+    if let Ok(kk) = guard(|| kit.keygen.create_keyswitching_key(other.secret_key(), true)) {
+        let kk_a = kk.expandv(a);
+        let kk_b = xfer(&key, "key-switching key", &kk, a, b)?;
+        if let Ok(ra) = guard(|| ev_a.apply_keyswitching_new(&ct_a, &kk_a)) {
+            let rb = call(&key, "apply_keyswitching", "restored key-switching key", || ev_b.apply_keyswitching_new(&ct_b, &kk_b))?;
+            st.steps += 1;
+            st.classes.insert("use:apply_keyswitching".into());
+            if let Some((f, m)) = ct_diff(&ra, &rb) {
+                return Err(bad(format!("{key}:apply_keyswitching-differs:{f}"), "same result", m));
+            }
+        }
+    }
+    Ok(())
+}
+
+fn finish_case(tagname: &str, st: Stats, r: R<()>) -> CaseOut {
+    match r {
+        Err(b) => CaseOut::fail(b.key, b.expected, b.observed),
+        Ok(()) => {
+            if st.steps == 0 {
+                return CaseOut::skip(&format!("nothing to serialize: {:?}", st.skipped));
+            }
+            if std::env::var("C14_TRACE").is_ok() {
+                eprintln!("TRACE {tagname} steps={} bytes={} classes={:?} skipped={:?}", st.steps, st.bytes, st.classes, st.skipped);
+            }
+            CaseOut::pass(true, h64(&(tagname, &st.classes, &st.skipped)), st.steps)
+        }
+    }
+}
+
+fn setup(sec: &str, spec: &ParamSpec) -> Result<(Kit, Ctxs), CaseOut> {
+    let kit = match guard(|| Kit::new(spec)) {
+        Ok(Ok(k)) => k,
+        Ok(Err(e)) => return Err(CaseOut::skip(&format!("parameter set rejected: {e}"))),
+        Err(p) => return Err(CaseOut::skip(&format!("parameter set rejected: {}", panic_class(&p)))),
+    };
+    let b = match rebuilt_context(sec, spec, &kit.ctx) {
+        Ok(b) => b,
+        Err(bd) => return Err(CaseOut::fail(bd.key, bd.expected, bd.observed)),
+    };
+    let ctxs: Ctxs = vec![("same", kit.ctx.clone()), ("rebuilt", b)];
+    Ok((kit, ctxs))
+}
+
+fn check_objects(c: &Case, seed: u64) -> CaseOut {
+    let tag = h64(&serde_json::to_string(c).unwrap_or_default());
+    he::env_real(seed, tag);
+    let sec = "objects";
+    let (kit, ctxs) = match setup(sec, &c.spec) {
+        Ok(x) => x,
+        Err(o) => return o,
+    };
+    let mut st = Stats::default();
+    let r = match c.kind.as_str() {
+        "params" => kind_params(sec, &kit, &ctxs, &mut st),
+        "plaintext" => kind_plaintext(sec, &kit, &ctxs, seed, &mut st),
+        "ct" => kind_ct(sec, &kit, &ctxs, c.deep, seed, &mut st),
+        "keys" => kind_keys(sec, &kit, &ctxs, &mut st),
+        "relin" => kind_relin(sec, &kit, &ctxs, &mut st),
+        "galois" => kind_galois(sec, &kit, &ctxs, &mut st),
+        "kswitch" => kind_kswitch(sec, &kit, &ctxs, &mut st),
+        "polyser" => kind_polyser(sec, &kit, &ctxs, seed, &mut st),
+        "containers" => kind_containers(sec, &kit, &ctxs, seed, &mut st),
+        "use" => kind_use(sec, &kit, &ctxs, seed, tag, &mut st),
+        k => panic!("unknown kind {k}"),
+    };
+    finish_case(&format!("{}:{:?}", c.kind, c.spec.scheme), st, r)
+}
+
+// ---------------------------------------------------------------------------------------------
+// selected terms: all subsets
+// ---------------------------------------------------------------------------------------------
+
+#[derive(Serialize, Deserialize, Clone, Debug)]
+pub struct TCase {
+    pub spec: ParamSpec,
+    /// the ciphertext variants with index = part (mod parts) are checked by this case
+    #[serde(default)]
+    pub part: usize,
+    #[serde(default)]
+    pub parts: usize,
+}
+
+fn check_terms(c: &TCase, seed: u64) -> CaseOut {
+    let tag = h64(&serde_json::to_string(c).unwrap_or_default());
+    he::env_real(seed, tag);
+    let sec = "terms";
+    let (kit, ctxs) = match setup(sec, &c.spec) {
+        Ok(x) => x,
+        Err(o) => return o,
+    };
+    let n = c.spec.n;
+    assert!(n <= 16);
+    let mut st = Stats::default();
+    // variants: real ones + crafted of size 2..4 (the size-16 ones add nothing for c0)
+    let parts = c.parts.max(1);
+    let vars: Vec<(String, String, Ciphertext)> =
+        ct_variants(&kit, false, seed, &mut st).into_iter().filter(|x| x.2.size() <= 4).enumerate().filter(|(i, _)| i % parts == c.part).map(|x| x.1).collect();
+    let a = &ctxs[0].1;
+    let r = (|| -> R<()> {
+        for (class, label, ct) in vars {
+            let tr = Arc::new(terms_ref(&ct, a));
+            let ct = Arc::new(ct);
+            let mut items: Vec<Item<Terms>> = Vec::with_capacity(2 << n);
+            for mask in 0..(1u32 << n) {
+                let asc = subset(mask, n);
+                let sh = shuffled(&asc);
+                if sh != asc {
+                    items.push(item(&class, format!("{label}, shuffled order"), Terms { ct: ct.clone(), terms: sh, tr: tr.clone() }));
+                }
+                items.push(item(&class, format!("{label}, ascending order"), Terms { ct: ct.clone(), terms: asc, tr: tr.clone() }));
+            }
+            stream_check(sec, &items, &ctxs, &mut st)?;
+        }
+        Ok(())
+    })();
+    finish_case(&format!("terms:{:?}", c.spec.scheme), st, r)
+}
+
+// ---------------------------------------------------------------------------------------------
+// scalars
+// ---------------------------------------------------------------------------------------------
+
+#[derive(Serialize, Deserialize, Clone, Debug)]
+pub struct SCase {
+    pub ty: String,
+}
+
+fn check_scalars(c: &SCase) -> CaseOut {
+    he::env_real(1, h64(&c.ty));
+    let sec = "scalars";
+    // any valid context will do: these writers ignore it
+    let spec = ParamSpec::new(Scheme::BFV, 8, he::chain(8, &[20, 20]), 17);
+    let ctx = spec.context();
+    let ctxs: Ctxs = vec![("same", ctx.clone()), ("again", ctx)];
+    let mut st = Stats::default();
+    let words: Vec<u64> = {
+        let mut v = vec![0u64, 1, 0xFF, 0x100, u64::MAX, u64::MAX - 1, 1 << 63, 0x0123_4567_89AB_CDEF, 0xA5A5_A5A5_A5A5_A5A5];
+        for k in 0..64 {
+            v.push(1 << k);
+            v.push((1u64 << k).wrapping_sub(1));
+        }
+        v
+    };
+    let r = match c.ty.as_str() {
+        "u64" => stream_check(sec, &words.iter().map(|&w| item("boundary", format!("{w:#x}"), NoCtx(w))).collect::<Vec<_>>(), &ctxs, &mut st),
+        "usize" => stream_check(sec, &words.iter().map(|&w| item("boundary", format!("{w:#x}"), NoCtx(w as usize))).collect::<Vec<_>>(), &ctxs, &mut st),
+        "u8" => stream_check(sec, &(0..=255u8).map(|w| item("all", format!("{w}"), NoCtx(w))).collect::<Vec<_>>(), &ctxs, &mut st),
+        "bool" => stream_check(sec, &[item("all", "false", NoCtx(false)), item("all", "true", NoCtx(true)), item("all", "false", NoCtx(false))], &ctxs, &mut st),
+        "f64" => {
+            let mut v: Vec<f64> = words.iter().map(|&w| f64::from_bits(w)).collect();
+            v.extend([0.0, -0.0, 1.0, -1.5, f64::MAX, f64::MIN_POSITIVE, f64::INFINITY, f64::NEG_INFINITY, f64::NAN, 1099511627776.0]);
+            stream_check(sec, &v.iter().map(|&w| item("bits", format!("{:#x}", w.to_bits()), NoCtx(w))).collect::<Vec<_>>(), &ctxs, &mut st)
+        }
+        "vec_u64" => {
+            let mut v: Vec<Vec<u64>> = vec![vec![], vec![0], vec![u64::MAX], words.clone()];
+            for len in 2..=9 {
+                v.push(words.iter().cycle().skip(len).take(len).copied().collect());
+            }
+            stream_check(sec, &v.into_iter().map(|w| item("lengths", format!("{} words", w.len()), NoCtx(w))).collect::<Vec<_>>(), &ctxs, &mut st)
+        }
+        "vec_u8" => {
+            let v: Vec<Vec<u8>> = vec![vec![], vec![0], vec![255, 0, 1], (0..=255u8).collect()];
+            stream_check(sec, &v.into_iter().map(|w| item("lengths", format!("{} bytes", w.len()), NoCtx(w))).collect::<Vec<_>>(), &ctxs, &mut st)
+        }
+        "scheme" => stream_check(
+            sec,
+            &[SchemeType::None, SchemeType::BFV, SchemeType::CKKS, SchemeType::BGV].iter().map(|&s| item("all", format!("{s:?}"), NoCtx(s))).collect::<Vec<_>>(),
+            &ctxs,
+            &mut st,
+        ),
+        "parms_id" => {
+            let v: Vec<ParmsID> = vec![PARMS_ID_ZERO, [u64::MAX; 4], [1, 2, 3, 4], [1 << 63, 0, 0xFF, 0x100]];
+            stream_check(sec, &v.into_iter().map(|w| item("patterns", format!("{w:x?}"), NoCtx(w))).collect::<Vec<_>>(), &ctxs, &mut st)
+        }
+        "modulus" => {
+            // 0 (CKKS plain modulus), every bit size 2..61 (2^k - 1 and 2^(k-1)), boundary primes
+            let mut v: Vec<u64> = vec![0, 2, 3];
+            for k in 2..=61u32 {
+                v.push((1u64 << k) - 1);
+                v.push(1u64 << (k - 1));
+                v.push((1u64 << (k - 1)) + 1);
+            }
+            for bits in [8usize, 9, 16, 17, 24, 25, 32, 33, 40, 41, 48, 49, 56, 57, 60, 61] {
+                v.extend(crate::refmodel::bigu::primes_1_mod(16, bits, 1));
+            }
+            v.retain(|&x| x != 1);
+            let ms: Vec<Modulus> = v.iter().map(|&x| Modulus::new(x)).collect();
+            let r = stream_check(sec, &ms.iter().map(|m| item("boundary", format!("{}", m.value()), NoCtx(*m))).collect::<Vec<_>>(), &ctxs, &mut st);
+            r.and_then(|_| stream_check(sec, &[item("boundary", "all boundary moduli in one vector", NoCtx(ms.clone())), item("empty", "empty", NoCtx(vec![]))], &ctxs, &mut st))
+        }
+        t => panic!("unknown scalar type {t}"),
+    };
+    finish_case(&c.ty, st, r)
+}
+
+// ---------------------------------------------------------------------------------------------
+// Rnsp* wrappers
+// ---------------------------------------------------------------------------------------------
+
+#[derive(Serialize, Deserialize, Clone, Debug)]
+pub struct RCase {
+    pub scheme: Scheme,
+    pub n: usize,
+    pub q: Vec<u64>,
+    /// plain moduli, one HeContext per entry
+    pub ts: Vec<u64>,
+}
+
+fn rc_diff(a: &RnspCiphertext, b: &RnspCiphertext) -> D {
+    if a.components.len() != b.components.len() {
+        return d("components", a.components.len(), b.components.len());
+    }
+    a.components.iter().zip(&b.components).enumerate().find_map(|(i, (x, y))| ct_diff(x, y).map(|(f, m)| (f, format!("component {i}: {m}"))))
+}
+fn rc_expand(a: &RnspCiphertext, cx: &RnspHeContext) -> RnspCiphertext {
+    RnspCiphertext::from_raw_parts(a.components.iter().zip(&cx.components).map(|(c, x)| expand_ct(c, x)).collect())
+}
+
+#[derive(Clone)]
+struct RC(RnspCiphertext);
+impl Obj for RC {
+    type Cx = RnspHeContext;
+    fn kind() -> &'static str {
+        "RnspCiphertext"
+    }
+    fn ser(&self, cx: &RnspHeContext, w: &mut Vec<u8>) -> io::Result<usize> {
+        RnspSerializableWithHeContext::serialize(&self.0, cx, w)
+    }
+    fn de(cx: &RnspHeContext, r: &mut &[u8], _l: &Self) -> io::Result<Self> {
+        Ok(RC(<RnspCiphertext as RnspSerializableWithHeContext>::deserialize(cx, r)?))
+    }
+    fn size(&self, cx: &RnspHeContext) -> usize {
+        RnspSerializableWithHeContext::serialized_size(&self.0, cx)
+    }
+    fn expected(&self, cx: &RnspHeContext) -> Self {
+        RC(rc_expand(&self.0, cx))
+    }
+    fn diff(&self, got: &Self) -> D {
+        rc_diff(&self.0, &got.0)
+    }
+}
+#[derive(Clone)]
+struct RCFull(RnspCiphertext);
+impl Obj for RCFull {
+    type Cx = RnspHeContext;
+    fn kind() -> &'static str {
+        "RnspCiphertext.full"
+    }
+    fn ser(&self, cx: &RnspHeContext, w: &mut Vec<u8>) -> io::Result<usize> {
+        self.0.serialize_full(cx, w)
+    }
+    fn de(cx: &RnspHeContext, r: &mut &[u8], _l: &Self) -> io::Result<Self> {
+        Ok(RCFull(RnspCiphertext::deserialize_full(cx, r)?))
+    }
+    fn size(&self, cx: &RnspHeContext) -> usize {
+        self.0.serialized_full_size(cx)
+    }
+    fn expected(&self, cx: &RnspHeContext) -> Self {
+        RCFull(rc_expand(&self.0, cx))
+    }
+    fn diff(&self, got: &Self) -> D {
+        rc_diff(&self.0, &got.0)
+    }
+}
+struct RCTerms {
+    c: RnspCiphertext,
+    terms: Vec<usize>,
+}
+impl Obj for RCTerms {
+    type Cx = RnspHeContext;
+    fn kind() -> &'static str {
+        "RnspCiphertext.terms"
+    }
+    fn ser(&self, cx: &RnspHeContext, w: &mut Vec<u8>) -> io::Result<usize> {
+        self.c.serialize_terms(cx, &self.terms, w)
+    }
+    fn de(cx: &RnspHeContext, r: &mut &[u8], l: &Self) -> io::Result<Self> {
+        Ok(RCTerms { c: RnspCiphertext::deserialize_terms(cx, &l.terms, r)?, terms: l.terms.clone() })
+    }
+    fn size(&self, cx: &RnspHeContext) -> usize {
+        self.c.serialized_terms_size(cx, self.terms.len())
+    }
+    fn expected(&self, cx: &RnspHeContext) -> Self {
+        let comps = self.c.components.iter().zip(&cx.components).map(|(c, x)| terms_expected(c, x, &self.terms, &terms_ref(c, x))).collect();
+        RCTerms { c: RnspCiphertext::from_raw_parts(comps), terms: self.terms.clone() }
+    }
+    fn diff(&self, got: &Self) -> D {
+        rc_diff(&self.c, &got.c).map(|(f, m)| (f, format!("terms={:?}: {m}", self.terms)))
+    }
+}
+#[derive(Clone)]
+struct RVec(Vec<RnspCiphertext>);
+impl Obj for RVec {
+    type Cx = RnspHeContext;
+    fn kind() -> &'static str {
+        "Vec<RnspCiphertext>"
+    }
+    fn ser(&self, cx: &RnspHeContext, w: &mut Vec<u8>) -> io::Result<usize> {
+        RnspSerializableWithHeContext::serialize(&self.0, cx, w)
+    }
+    fn de(cx: &RnspHeContext, r: &mut &[u8], _l: &Self) -> io::Result<Self> {
+        Ok(RVec(<Vec<RnspCiphertext> as RnspSerializableWithHeContext>::deserialize(cx, r)?))
+    }
+    fn size(&self, cx: &RnspHeContext) -> usize {
+        RnspSerializableWithHeContext::serialized_size(&self.0, cx)
+    }
+    fn expected(&self, cx: &RnspHeContext) -> Self {
+        RVec(self.0.iter().map(|c| rc_expand(c, cx)).collect())
+    }
+    fn diff(&self, got: &Self) -> D {
+        if self.0.len() != got.0.len() {
+            return d("len", self.0.len(), got.0.len());
+        }
+        self.0.iter().zip(&got.0).enumerate().find_map(|(i, (x, y))| rc_diff(x, y).map(|(f, m)| (f, format!("[{i}] {m}"))))
+    }
+}
+macro_rules! rnsp_keys {
+    ($name:ident, $t:ty, $inner:ty, $kind:expr) => {
+        #[derive(Clone)]
+        struct $name($t);
+        impl Obj for $name {
+            type Cx = RnspHeContext;
+            fn kind() -> &'static str {
+                $kind
+            }
+            fn ser(&self, cx: &RnspHeContext, w: &mut Vec<u8>) -> io::Result<usize> {
+                RnspSerializableWithHeContext::serialize(&self.0, cx, w)
+            }
+            fn de(cx: &RnspHeContext, r: &mut &[u8], _l: &Self) -> io::Result<Self> {
+                Ok($name(<$t as RnspSerializableWithHeContext>::deserialize(cx, r)?))
+            }
+            fn size(&self, cx: &RnspHeContext) -> usize {
+                RnspSerializableWithHeContext::serialized_size(&self.0, cx)
+            }
+            fn expected(&self, cx: &RnspHeContext) -> Self {
+                $name(<$t>::from_raw_parts(self.0.components.iter().zip(&cx.components).map(|(k, x)| <$inner as EqvX>::expandv(k, x)).collect()))
+            }
+            fn diff(&self, got: &Self) -> D {
+                if self.0.components.len() != got.0.components.len() {
+                    return d("components", self.0.components.len(), got.0.components.len());
+                }
+                self.0.components.iter().zip(&got.0.components).enumerate().find_map(|(i, (x, y))| <$inner as EqvX>::diffv(x, y).map(|(f, m)| (f, format!("component {i}: {m}"))))
+            }
+        }
+    };
+}
+rnsp_keys!(RPk, RnspPublicKey, PublicKey, "RnspPublicKey");
+rnsp_keys!(RRlk, RnspRelinKeys, RelinKeys, "RnspRelinKeys");
+rnsp_keys!(RGlk, RnspGaloisKeys, GaloisKeys, "RnspGaloisKeys");
+
+fn check_rnsp(c: &RCase, seed: u64) -> CaseOut {
+    let tag = h64(&serde_json::to_string(c).unwrap_or_default());
+    he::env_real(seed, tag);
+    let sec = "rnsp";
+    let parms = RnspEncryptionParameters::new(c.scheme.ty())
+        .set_poly_modulus_degree(c.n)
+        .set_coeff_modulus(c.q.iter().map(|&v| Modulus::new(v)).collect())
+        .set_plain_modulus(c.ts.iter().map(|&v| Modulus::new(v)).collect());
+    let a = match guard(|| RnspHeContext::new(parms, true, SecurityLevel::None)) {
+        Ok(a) if a.parameters_set() => a,
+        _ => return CaseOut::skip("parameter set rejected"),
+    };
+    // rebuilt: every component context from its serialized parameters
+    let mut comps = vec![];
+    for (i, x) in a.components.iter().enumerate() {
+        let spec = ParamSpec::new(c.scheme, c.n, c.q.clone(), c.ts[i]);
+        match rebuilt_context(sec, &spec, x) {
+            Ok(b) => comps.push(b),
+            Err(bd) => return CaseOut::fail(bd.key, bd.expected, bd.observed),
+        }
+    }
+    let b = RnspHeContext { components: comps };
+    let ctxs: Vec<(&'static str, Arc<RnspHeContext>)> = vec![("same", Arc::new(a.clone())), ("rebuilt", Arc::new(b))];
+    let mut st = Stats::default();
+    let r = (|| -> R<()> {
+        let key = format!("{sec}:setup");
+        let kg = call(&key, "RnspKeyGenerator::new", "", || RnspKeyGenerator::new(&a))?;
+        let sk = kg.get_secret_key();
+        let (pk, pks) = match guard(|| (kg.create_public_key(false), kg.create_public_key(true))) {
+            Ok(x) => x,
+            Err(p) => {
+                st.skipped.insert(format!("public key creation refused ({})", panic_class(&p)));
+                return Ok(());
+            }
+        };
+        let cls = |s: bool| if s { "seeded" } else { "expanded" };
+        stream_check(sec, &[item(cls(pk.contains_seed()), "create_public_key(false)", RPk(pk.clone())), item(cls(pks.contains_seed()), "create_public_key(true)", RPk(pks.clone()))], &ctxs, &mut st)?;
+        let mut rl = vec![];
+        let mut gl = vec![];
+        for save in [false, true] {
+            match guard(|| kg.create_relin_keys(save)) {
+                Ok(k) => rl.push(item(cls(k.contains_seed()), format!("create_relin_keys({save})"), RRlk(k))),
+                Err(p) => {
+                    st.skipped.insert(format!("relin keys refused ({})", panic_class(&p)));
+                }
+            }
+            match guard(|| kg.create_galois_keys(save)) {
+                Ok(k) => gl.push(item(cls(k.contains_seed()), format!("create_galois_keys({save})"), RGlk(k))),
+                Err(p) => {
+                    st.skipped.insert(format!("galois keys refused ({})", panic_class(&p)));
+                }
+            }
+        }
+        stream_check(sec, &rl, &ctxs, &mut st)?;
+        stream_check(sec, &gl, &ctxs, &mut st)?;
+        // ciphertexts
+        let enc = call(&key, "RnspEncryptor", "", || RnspEncryptor::new(&a).set_secret_key(sk.clone()).set_public_key(pk.clone()))?;
+        let plain = RnspPlaintext::from_raw_parts(c.ts.iter().enumerate().map(|(i, &t)| coeff_plain(t, c.n, seed, 70 + i as u64)).collect());
+        let mut cts: Vec<(String, String, RnspCiphertext)> = vec![];
+        match guard(|| enc.encrypt_new(&plain)) {
+            Ok(x) => cts.push(("expanded".into(), "encrypt_new".into(), x)),
+            Err(p) => {
+                st.skipped.insert(format!("encrypt_new refused ({})", panic_class(&p)));
+            }
+        }
+        match guard(|| enc.encrypt_symmetric_new(&plain)) {
+            Ok(x) => {
+                if x.contains_seed() {
+                    let lib = call(&format!("{sec}:RnspCiphertext:ExpandSeed"), "expand_seed", "encrypt_symmetric_new", || x.clone().expand_seed(&a))?;
+                    st.steps += 1;
+                    if let Some((f, m)) = rc_diff(&rc_expand(&x, &a), &lib) {
+                        return Err(bad(format!("{sec}:RnspCiphertext:ExpandSeed:differs:{f}"), "component-wise expansion", m));
+                    }
+                }
+                cts.push((cls(x.contains_seed()).into(), "encrypt_symmetric_new".into(), x))
+            }
+            Err(p) => {
+                st.skipped.insert(format!("encrypt_symmetric_new refused ({})", panic_class(&p)));
+            }
+        }
+        for (i, (size, ntt)) in [(2usize, false), (3, true), (4, false)].into_iter().enumerate() {
+            let comps = a
+                .components
+                .iter()
+                .enumerate()
+                .map(|(j, x)| {
+                    let ids = level_ids(x);
+                    let id = ids[(i + 1) % ids.len()].1;
+                    let mut ct = crafted_ct(x, &id, size, ntt, seed, 900 + (i * 8 + j) as u64);
+                    if c.scheme == Scheme::BGV {
+                        ct.set_correction_factor(1 + (i as u64 % (c.ts[j] - 1)));
+                    }
+                    ct
+                })
+                .collect();
+            cts.push(("crafted".into(), format!("crafted size={size} ntt={ntt}"), RnspCiphertext::from_raw_parts(comps)));
+        }
+        stream_check(sec, &wrap(cts.clone(), RC), &ctxs, &mut st)?;
+        stream_check(sec, &wrap(cts.clone(), RCFull), &ctxs, &mut st)?;
+        let all: Vec<RnspCiphertext> = cts.iter().map(|x| x.2.clone()).collect();
+        stream_check(sec, &[item("empty", "empty vector", RVec(vec![])), item("many", "all ciphertext variants", RVec(all))], &ctxs, &mut st)?;
+        // selected terms: all subsets for N <= 8
+        let n = c.n;
+        let masks: Vec<u32> = if n <= 8 { (0..1u32 << n).collect() } else { vec![0, 1, (1 << n) - 1] };
+        let mut items = vec![];
+        for (class, label, ct) in &cts {
+            for &m in &masks {
+                let asc = subset(m, n);
+                let sh = shuffled(&asc);
+                if sh != asc {
+                    items.push(item(class, format!("{label}, shuffled"), RCTerms { c: ct.clone(), terms: sh }));
+                }
+                items.push(item(class, format!("{label}, ascending"), RCTerms { c: ct.clone(), terms: asc }));
+            }
+        }
+        stream_check(sec, &items, &ctxs, &mut st)
+    })();
+    finish_case(&format!("rnsp:{:?}", c.scheme), st, r)
+}
+
+// ---------------------------------------------------------------------------------------------
+// parameter sets and sections
+// ---------------------------------------------------------------------------------------------
+
+/// prime bit sizes at both ends of every packed byte width 1..8
+const WIDTH_BITS: [usize; 15] = [8, 9, 16, 17, 24, 25, 32, 33, 40, 41, 48, 49, 56, 57, 60];
+
+fn bit_chains(n: usize) -> Vec<Vec<usize>> {
+    let mut v: Vec<Vec<usize>> = vec![];
+    // smallest primes that exist for this degree (3..8 bits)
+    v.push(match n {
+        2 => vec![3, 4, 5, 6, 7],
+        4 => vec![5, 6, 7, 7, 8],
+        8 => vec![5, 7, 7, 8, 8],
+        16 => vec![7, 8, 9, 9],
+        _ => vec![8, 9, 9, 10],
+    });
+    for &b in &WIDTH_BITS {
+        v.push(vec![b]);
+    }
+    for w in WIDTH_BITS.windows(3) {
+        v.push(w.to_vec());
+    }
+    for (i, w) in WIDTH_BITS.windows(3).enumerate() {
+        if i % 2 == 0 {
+            v.push(w.iter().rev().copied().collect());
+        }
+    }
+    v.push(vec![8, 16, 24, 32, 40, 48, 56, 60]);
+    v.push(vec![57, 49, 41, 33, 25, 17, 9]);
+    v
+}
+
+/// plain modulus below the first data level: every third chain a batching prime (= 1 mod 2N, not one of the
+/// coefficient primes), otherwise 2^e (coprime to every odd prime) whose byte width cycles with `idx`
+fn choose_t(n: usize, bits: &[usize], q: &[u64], idx: usize) -> u64 {
+    let first_level: usize = if bits.len() == 1 { bits[0] } else { bits[..bits.len() - 1].iter().sum() };
+    let avail = first_level.saturating_sub(3).clamp(1, 59);
+    if idx % 3 == 1 {
+        let big = crate::refmodel::bigu::primes_1_mod(64, 59, 1)[0];
+        let mid = crate::refmodel::bigu::primes_1_mod(64, 33, 1)[0];
+        for t in [big, mid, 65537, 257, 97, 17, 5] {
+            let tb = 64 - t.leading_zeros() as usize;
+            if (t - 1) % (2 * n as u64) == 0 && tb <= avail && !q.contains(&t) {
+                return t;
+            }
+        }
+    }
+    let w = 1 + idx % 8;
+    let e = (8 * w - 2).min(avail);
+    1u64 << e
+}
+
+pub fn specs(deep: bool) -> Vec<ParamSpec> {
+    let mut out = vec![];
+    let degrees: &[usize] = if deep { &[2, 4, 8, 16, 32] } else { &[2, 4, 8, 16] };
+    for &n in degrees {
+        for (ci, bits) in bit_chains(n).into_iter().enumerate() {
+            let q = he::chain(n, &bits);
+            for (si, scheme) in Scheme::all().into_iter().enumerate() {
+                let t = choose_t(n, &bits, &q, ci + si);
+                let mut s = ParamSpec::new(scheme, n, q.clone(), t);
+                out.push(s.clone());
+                // the special-prime-for-encryption layout on a few chains
+                if bits.len() >= 3 && ci % 5 == 0 {
+                    s.special_enc = true;
+                    out.push(s);
+                }
+            }
+        }
+    }
+    out
+}
+
+pub fn sections(cfg: &RunCfg) -> Vec<Box<dyn AnySection>> {
+    let seed = cfg.seed;
+    let deep = cfg.thorough();
+    let mut v: Vec<Box<dyn AnySection>> = vec![];
+
+    let scalars: Vec<SCase> = ["u8", "bool", "u64", "usize", "f64", "vec_u64", "vec_u8", "scheme", "parms_id", "modulus"].iter().map(|s| SCase { ty: s.to_string() }).collect();
+    v.push(E1::new("scalars", "u8: all 256 values; u64/usize/f64: 2^k, 2^k-1, patterns; vectors of 0..137 words; every SchemeType; Modulus: 0 and every bit size 2..61", scalars.into_iter(), check_scalars));
+
+    let sp = specs(deep);
+    let nspecs = sp.len();
+    let cases: Vec<Case> = sp.iter().flat_map(|s| KINDS.iter().map(move |k| Case { spec: s.clone(), kind: k.to_string(), deep })).collect();
+    v.push(
+        E1::new(
+            "objects",
+            &format!(
+                "{nspecs} parameter sets (BFV/BGV/CKKS x N in {} x prime chains covering every residue byte width 1..8 at every chain position, 1..8 primes, plain moduli of 1..8 bytes) x {} object kinds; ciphertext sizes {}; all levels; both representations",
+                if deep { "{2,4,8,16,32}" } else { "{2,4,8,16}" },
+                KINDS.len(),
+                if deep { "2..16" } else { "{2,3,4,16}" }
+            ),
+            cases.into_iter(),
+            move |c: &Case| check_objects(c, seed),
+        )
+        .deadline(std::time::Duration::from_secs(120)),
+    );
+
+    // selected terms: all subsets; N <= 8 (thorough: 16 on a few chains)
+    let mut tcases: Vec<TCase> = sp.iter().filter(|s| s.n <= 8 && (deep || !s.special_enc)).map(|s| TCase { spec: s.clone(), part: 0, parts: 1 }).collect();
+    if deep {
+        // N = 16: 2^16 subsets per variant; nine parameter sets, variants spread over 12 cases each. The engine hands out
+        // batches of 16 consecutive cases to a worker, so the heavy cases are spread evenly among the light ones.
+        let mut heavy = vec![];
+        for s in sp.iter().filter(|s| s.n == 16 && s.q.len() == 3 && !s.special_enc).step_by(7).take(9) {
+            for part in 0..12 {
+                heavy.push(TCase { spec: s.clone(), part, parts: 12 });
+            }
+        }
+        let gap = (tcases.len() / heavy.len().max(1)).max(1);
+        let light = std::mem::take(&mut tcases);
+        let mut h = heavy.into_iter();
+        for (i, c) in light.into_iter().enumerate() {
+            if i % gap == gap - 1 {
+                tcases.extend(h.next());
+            }
+            tcases.push(c);
+        }
+        tcases.extend(h);
+    }
+    let nt = tcases.len();
+    v.push(
+        E1::new(
+            "terms",
+            &format!("{nt} cases (parameter set; for N=16 also a 1/12 share of the variants) x every ciphertext variant of size <= 4 x ALL 2^N term subsets (ascending and one shuffled order), N <= {}", if deep { 16 } else { 8 }),
+            tcases.into_iter(),
+            move |c: &TCase| check_terms(c, seed),
+        )
+        .deadline(std::time::Duration::from_secs(300)),
+    );
+
+    let mut rcases = vec![];
+    for scheme in [Scheme::BFV, Scheme::BGV] {
+        for n in [4usize, 8] {
+            for bits in [vec![20usize, 25, 30], vec![8, 9, 16, 17], vec![57, 33, 60], vec![40, 40]] {
+                let q = he::chain(n, &bits);
+                for ts in [vec![17u64], vec![17, 97], vec![1 << 6, 257, 65537]] {
+                    rcases.push(RCase { scheme, n, q: q.clone(), ts });
+                }
+            }
+        }
+    }
+    v.push(E1::new("rnsp", "BFV/BGV x N in {4,8} x 4 chains x 1..3 plain moduli: Rnsp ciphertexts (compact, 'full', all term subsets), public/relin/Galois keys, vectors", rcases.into_iter(), move |c: &RCase| check_rnsp(c, seed)));
+    v
 }
